@@ -739,3 +739,1602 @@ Proof.
         cbn. destruct k; cbn; replace (nth_error (c_txs c) (j - c_txs_shifted c)) with (@None (option tx)) by (symmetry; apply nth_error_None; exact Q); reflexivity.
 Qed.
 End Layer2.
+
+Lemma fr_set_in_state R c c1 s : frR R c c1 -> frR R (c <| c_in_state := s |>) (c1 <| c_in_state := s |>).
+Proof.
+  intros (A1 & A2 & A3 & A4 & A5 & A6 & A7). unfold frR. repeat split; try assumption.
+  unfold skel in *. cbn. congruence.
+Qed.
+
+Section Layer3.
+Variable cb : cb_oracle.
+Variable g : cfg.
+Hypothesis cb_nodestroy : forall h n, cb h n <> CB_DESTROY_TX.
+
+(* ---- htp_tx_state_request_line ---- *)
+Lemma request_line_safe i c :
+  c_fault c = false -> live c i ->
+  let r := tx_state_request_line cb g i c in
+  c_fault (snd r) = false /\
+  (fst r = ST_OK -> fr (c <| c_in_state := REQ_PROTOCOL |>) (snd r) /\ txp (snd r) (Some i) (fun t => t_parsed_uri t <> None)) /\
+  (fst r <> ST_OK -> fr c (snd r)).
+Proof.
+  intros F L. cbv zeta. unfold tx_state_request_line.
+  unfold live in L. unfold tx_get. destruct (tx_slot c i) as [t|] eqn:Es; [|congruence].
+  destruct (rq_uri_pipeline_opt g (t_request_method_number t =? c_HTP_M_CONNECT) (t_request_uri t) t) as [t'|] eqn:Ep;
+    [|cbn [fst snd]; split; [exact F|split; [discriminate|intros _; apply fr_refl]]].
+  destruct (pipeline_spec _ _ _ _ _ Ep) as [Hp Hu].
+  assert (Hle : tx_le t t'). { unfold prog2 in Hp. injection Hp as H1 H2. unfold tx_le, tx_lein, tx_leout. rewrite H1, H2. tauto. }
+  pose proof (tx_put_fr tx_le c i t' t tx_le_pre Es Hle) as R0.
+  assert (L' : live c i) by (unfold live; congruence).
+  assert (U0 : tx_slot (tx_put c i t') i = Some t') by (rewrite (tx_put_slot c i t' i L'), Nat.eqb_refl; reflexivity).
+  assert (KeepU : forall c0 c1, fr c0 c1 -> txp c0 (Some i) (fun t => t_parsed_uri t <> None) -> txp c1 (Some i) (fun t => t_parsed_uri t <> None)).
+  { intros c0 c1 (_ & _ & X & _) Q. eapply txs_rel_txp; [exact X| |exact Q]. intros a b [[_ E] _]. exact E. }
+  pose proof (frR_live _ _ _ i R0 L') as L0.
+  pose proof (run_hook_fr cb cb_nodestroy H_REQUEST_URI_NORMALIZE i _ L0) as R1. unfold run_hook in *.
+  destruct (run_hook_ex cb H_REQUEST_URI_NORMALIZE i None false None (tx_put c i t')) as [rc c1]. cbn [fst snd] in *.
+  pose proof (fr_trans _ _ _ R0 R1) as R01.
+  assert (F1 : c_fault c1 = false) by (rewrite (frR_fault _ _ _ R01); exact F).
+  destruct rc; cbn [fst snd]; try (split; [exact F1|split; [discriminate|intros _; exact R01]]).
+  pose proof (frR_live _ _ _ i R01 L') as L1.
+  pose proof (run_hook_fr cb cb_nodestroy H_REQUEST_LINE i _ L1) as R2. unfold run_hook in *.
+  destruct (run_hook_ex cb H_REQUEST_LINE i None false None c1) as [rc2 c2]. cbn [fst snd] in *.
+  pose proof (fr_trans _ _ _ R01 R2) as R02.
+  assert (F2 : c_fault c2 = false) by (rewrite (frR_fault _ _ _ R02); exact F).
+  destruct rc2; cbn [fst snd]; try (split; [exact F2|split; [discriminate|intros _; exact R02]]).
+  split; [exact F2|split; [intros _|intros Q; congruence]]. split; [apply fr_set_in_state; exact R02|].
+  change (txp c2 (Some i) (fun t => t_parsed_uri t <> None)).
+  eapply KeepU; [exact (fr_trans _ _ _ R1 R2)|]. unfold txp. rewrite U0. exact Hu.
+Qed.
+
+(* ---- htp_tx_process_request_headers ---- *)
+Lemma process_request_headers_safe i c :
+  c_fault c = false -> live c i -> txp c (Some i) (fun t => t_parsed_uri t <> None) -> sendok_in c ->
+  let r := tx_process_request_headers cb i c in
+  c_fault (snd r) = false /\ fr c (snd r) /\ (fst r = ST_OK -> hook_in (snd r) = None).
+Proof.
+  intros F L U K. cbv zeta. unfold tx_process_request_headers.
+  unfold live in L. unfold txp in U. unfold tx_get. destruct (tx_slot c i) as [t|] eqn:Es; [|congruence].
+  pose proof (prog3_te_cl t) as H1. set (t1 := rq_te_cl t) in *.
+  assert (U1 : t_parsed_uri t1 <> None) by (unfold prog3 in H1; injection H1 as _ _ ->; exact U).
+  destruct (t_parsed_uri t1) as [nu|] eqn:Eu; [|congruence].
+  pose proof (prog3_host nu t1) as H2. pose proof (prog3_content_type (rq_host nu t1)) as H3.
+  set (t3 := rq_content_type (rq_host nu t1)) in *.
+  assert (Hle : tx_le t t3) by (apply tx_le_of_prog3; congruence).
+  pose proof (tx_put_fr tx_le c i t3 t tx_le_pre Es Hle) as R0.
+  assert (F0 : c_fault (tx_put c i t3) = false) by (rewrite (frR_fault _ _ _ R0); exact F).
+  pose proof (sendok_in_frR _ _ _ R0 K) as K0.
+  destruct (req_receiver_finalize_clear_safe cb cb_nodestroy _ F0 K0) as (F1 & R1 & Hh).
+  destruct (req_receiver_finalize_clear cb (tx_put c i t3)) as [rc c1]. cbn [fst snd] in *.
+  pose proof (fr_trans _ _ _ R0 R1) as R01.
+  destruct rc; cbn [fst snd]; try (split; [exact F1|split; [exact R01|discriminate]]).
+  assert (L' : live c i) by (unfold live; congruence).
+  pose proof (frR_live _ _ _ i R01 L') as L1.
+  pose proof (run_hook_fr cb cb_nodestroy H_REQUEST_HEADERS i _ L1) as R2.
+  split; [rewrite (frR_fault _ _ _ R2); exact F1|]. split; [exact (fr_trans _ _ _ R01 R2)|].
+  intros _. eapply frR_hook_in_none; [exact R2|exact Hh].
+Qed.
+
+(* ---- htp_tx_state_request_headers ---- *)
+Lemma request_headers_safe i c :
+  c_fault c = false -> live c i -> txp c (Some i) (fun t => t_parsed_uri t <> None) -> sendok_in c ->
+  let r := tx_state_request_headers cb i c in
+  c_fault (snd r) = false /\
+  (fst r = ST_OK -> hook_in (snd r) = None /\
+     (fr (c <| c_in_state := REQ_FINALIZE |>) (snd r) \/ fr (c <| c_in_state := REQ_CONNECT_CHECK |>) (snd r))) /\
+  (fst r <> ST_OK -> fr c (snd r)).
+Proof.
+  intros F L U K. cbv zeta. unfold tx_state_request_headers.
+  destruct (c_HTP_REQUEST_HEADERS <? t_request_progress (tx_get c i)).
+  - pose proof (run_hook_fr cb cb_nodestroy H_REQUEST_TRAILER i c L) as R1. unfold run_hook in *.
+    destruct (run_hook_ex cb H_REQUEST_TRAILER i None false None c) as [rc c1]. cbn [fst snd] in *.
+    assert (F1 : c_fault c1 = false) by (rewrite (frR_fault _ _ _ R1); exact F).
+    destruct rc; cbn [fst snd]; try (split; [exact F1|split; [discriminate|intros _; exact R1]]).
+    pose proof (sendok_in_frR _ _ _ R1 K) as K1.
+    destruct (req_receiver_finalize_clear_safe cb cb_nodestroy _ F1 K1) as (F2 & R2 & Hh).
+    destruct (req_receiver_finalize_clear cb c1) as [rc2 c2]. cbn [fst snd] in *.
+    pose proof (fr_trans _ _ _ R1 R2) as R02.
+    destruct rc2; cbn [fst snd]; try (split; [exact F2|split; [discriminate|intros _; exact R02]]).
+    split; [exact F2|split; [intros _|intros Q; congruence]]. split; [exact Hh|left; apply fr_set_in_state; exact R02].
+  - destruct (c_HTP_REQUEST_LINE <=? t_request_progress (tx_get c i));
+      [|cbn [fst snd]; split; [exact F|split; [discriminate|intros _; apply fr_refl]]].
+    set (c0 := if negb (c_in_chunk_count c =? c_in_chunk_request_index c)%nat then _ else c).
+    assert (R0 : fr c c0).
+    { subst c0. destruct (negb _); [|apply fr_refl]. apply tx_upd_fr; [apply tx_le_pre|exact L|intros t; apply tx_le_of_prog3; reflexivity]. }
+    assert (F0 : c_fault c0 = false) by (rewrite (frR_fault _ _ _ R0); exact F).
+    assert (U0 : txp c0 (Some i) (fun t => t_parsed_uri t <> None)).
+    { destruct R0 as (_ & _ & X & _). eapply txs_rel_txp; [exact X| |exact U]. intros a b [[_ E] _]. exact E. }
+    destruct (process_request_headers_safe i c0 F0 (frR_live _ _ _ i R0 L) U0 (sendok_in_frR _ _ _ R0 K)) as (F1 & R1 & Hh).
+    destruct (tx_process_request_headers cb i c0) as [rc c1]. cbn [fst snd] in *.
+    pose proof (fr_trans _ _ _ R0 R1) as R01.
+    destruct rc; cbn [fst snd]; try (split; [exact F1|split; [discriminate|intros _; exact R01]]).
+    split; [exact F1|split; [intros _|intros Q; congruence]]. split; [exact (Hh eq_refl)|right; apply fr_set_in_state; exact R01].
+Qed.
+End Layer3.
+
+(* 4. the request loop invariant and the byte-level macros *)
+
+(* what TI and the loop clauses read, for steps that do not touch the transaction table at all *)
+Definition tiv (c : connp) :=
+  (c_in_state c, c_out_state c, c_in_tx c, c_out_tx c, hook_in c, hook_out c, c_txs c, c_txs_shifted c, c_out_status c).
+Lemma TI_tiv c c' : tiv c' = tiv c -> TI c -> TI c'.
+Proof.
+  unfold tiv. intros H [Ti To]. injection H as H1 H2 H3 H4 H5 H6 H7 H8 H9. split.
+  - eapply TIin_frame; [exact Ti|exact H1|exact H3|left; exact H5|apply txs_rel_of_eq; [apply tx_lein_pre|exact H7|exact H8]].
+  - eapply TIout_frame; [exact To|exact H2|exact H4|left; exact H6|apply txs_rel_of_eq; [apply tx_leout_pre|exact H7|exact H8]].
+Qed.
+
+(* in every state but IDLE / IGNORE_DATA_AFTER_HTTP_0_9 there is a current transaction *)
+Definition intx_ok (c : connp) : Prop :=
+  c_in_state c <> REQ_IDLE -> c_in_state c <> REQ_IGNORE_DATA_AFTER_HTTP_0_9 -> c_in_tx c <> None.
+(* during a gap (NULL chunk with a length) an armed receiver has nothing to flush *)
+Definition gap_ok (gap : bool) (c : connp) : Prop := gap = true -> armed (c_in c) -> k_read (c_in c) = O.
+(* ... and REQ_BODY_IDENTITY starts at offset 0 (NULL + 0); the receiver is armed (on entering REQ_HEADERS) at offset 0 only *)
+Definition gap_head (gap : bool) (c : connp) : Prop :=
+  gap = true -> (c_in_state c = REQ_BODY_IDENTITY \/ c_in_state c = REQ_HEADERS) -> k_read (c_in c) = O.
+
+(* the invariant of htp_connp_req_data's loop that also holds when a pass leaves the loop with a "need data" code;
+   os = out_status when the call started *)
+Record RE (gap : bool) (os : Z) (c : connp) : Prop := mkRE {
+  re_fault : c_fault c = false;
+  re_pre : rq_pre c;
+  re_readable : gap = false -> rq_readable c;
+  re_ti : TI c;
+  re_intx : intx_ok c;
+  re_gap : gap_ok gap c;
+  re_os : c_out_status c = os \/ c_out_status c = c_HTP_STREAM_TUNNEL
+}.
+
+Lemma rq_core_fields a b : rq_core_st a = rq_core_st b ->
+  k_data (c_in a) = k_data (c_in b) /\ k_len (c_in a) = k_len (c_in b) /\ k_read (c_in a) = k_read (c_in b) /\
+  k_consume (c_in a) = k_consume (c_in b) /\ c_in_state a = c_in_state b.
+Proof. unfold rq_core_st, rq_core. intros H. injection H as H1 H2 H3 H4 H5 H6 H7 H8 H9 H10 H11. repeat split; congruence. Qed.
+
+Lemma RE_fr gap os c c' : RE gap os c -> fr c c' -> RE gap os c'.
+Proof.
+  intros [A1 A2 A3 A4 A5 A6 A7] R. pose proof (frR_core _ _ _ R) as C. destruct (rq_core_fields _ _ C) as (E1 & E2 & E3 & E4 & E5).
+  constructor.
+  - rewrite (frR_fault _ _ _ R). exact A1.
+  - eapply rq_pre_moved; [apply rq_moved_core; exact C|exact A2].
+  - intros G. specialize (A3 G). unfold rq_readable, rq_len in *. rewrite E1, E2. exact A3.
+  - eapply TI_fr; eassumption.
+  - unfold intx_ok in *. rewrite E5, (frR_in_tx _ _ _ R). exact A5.
+  - unfold gap_ok, armed in *. intros G U. rewrite E3. apply (A6 G). destruct R as (_ & _ & _ & [H|H] & _); unfold hook_in in H; congruence.
+  - destruct R as (S & _). rewrite (skel_out_status _ _ S). exact A7.
+Qed.
+
+Lemma RE_sendok gap os c : RE gap os c -> sendok_in c.
+Proof.
+  intros [A1 A2 A3 A4 A5 A6 A7] U. destruct A4 as [Ti _]. destruct (ti_in_armed c Ti U) as [N _].
+  split; [split; [exact N|exact (ti_in_live c Ti)]|].
+  unfold bytes_ok. destruct A2 as [(W1 & W2 & W3) _]. unfold rq_rd, rq_len, rq_cs in *.
+  destruct (k_data (c_in c)) as [d|] eqn:Ed; [right; lia|left].
+  destruct gap.
+  - rewrite (A6 eq_refl U). lia.
+  - specialize (A3 eq_refl). unfold rq_readable, rq_len in A3. rewrite (A3 Ed) in W1. lia.
+Qed.
+
+(* a byte-level step outside a gap: new cursor facts are supplied, the rest is read off tiv *)
+Lemma RE_byte os c c' :
+  RE false os c -> tiv c' = tiv c -> c_fault c' = false -> rq_pre c' -> rq_readable c' -> RE false os c'.
+Proof.
+  intros [A1 A2 A3 A4 A5 A6 A7] T F P Rd. pose proof T as T'. unfold tiv in T'. injection T' as H1 H2 H3 H4 H5 H6 H7 H8 H9.
+  constructor; try assumption.
+  - intros _. exact Rd.
+  - eapply TI_tiv; eassumption.
+  - unfold intx_ok. rewrite H1, H3. exact A5.
+  - intros G. discriminate.
+  - rewrite H9. exact A7.
+Qed.
+
+(* ---- the byte macros do not fault on a well-formed, readable cursor ---- *)
+Definition nf (c c' : connp) : Prop := c_fault c' = c_fault c /\ tiv c' = tiv c.
+Lemma nf_refl c : nf c c. Proof. split; reflexivity. Qed.
+Lemma nf_trans a b c : nf a b -> nf b c -> nf a c.
+Proof. intros [A1 A2] [B1 B2]. split; congruence. Qed.
+
+Lemma rq_read_byte_nf c : rq_wf c -> rq_readable c -> (rq_rd c < rq_len c)%nat -> nf c (fst (rq_read_byte c)).
+Proof.
+  unfold rq_wf, rq_readable, rq_rd, rq_len, rq_cs, rq_read_byte. intros (W1 & W2 & W3) Rd Lt.
+  destruct (k_data (c_in c)) as [d|] eqn:Ed; [|specialize (Rd eq_refl); lia].
+  destruct (nth_error d (k_read (c_in c))) eqn:En; [apply nf_refl|]. apply nth_error_None in En. lia.
+Qed.
+Lemma rq_peek_next_nf c : rq_wf c -> rq_readable c -> nf c (rq_peek_next c).
+Proof.
+  intros W Rd. unfold rq_peek_next, rq_at_end. destruct (k_len (c_in c) <=? k_read (c_in c))%nat eqn:E; [split; reflexivity|].
+  apply Nat.leb_gt in E. pose proof (rq_read_byte_nf c W Rd E) as [N1 N2]. destruct (rq_read_byte c) as [c1 b]. cbn [fst] in *.
+  split; [exact N1|]. rewrite <- N2. reflexivity.
+Qed.
+Lemma rq_copy_byte_nf c c' : rq_wf c -> rq_readable c -> rq_copy_byte c = Some c' -> nf c c'.
+Proof.
+  intros W Rd. unfold rq_copy_byte, rq_at_end. destruct (k_len (c_in c) <=? k_read (c_in c))%nat eqn:E; [discriminate|].
+  apply Nat.leb_gt in E. pose proof (rq_read_byte_nf c W Rd E) as [N1 N2]. destruct (rq_read_byte c) as [c1 b]. cbn [fst] in *.
+  intros H. injection H as <-. split; [exact N1|]. rewrite <- N2. reflexivity.
+Qed.
+Lemma rq_next_byte_nf c c' : rq_wf c -> rq_readable c -> rq_next_byte c = Some c' -> nf c c'.
+Proof.
+  intros W Rd. unfold rq_next_byte, rq_at_end. destruct (k_len (c_in c) <=? k_read (c_in c))%nat eqn:E; [discriminate|].
+  apply Nat.leb_gt in E. pose proof (rq_read_byte_nf c W Rd E) as [N1 N2]. destruct (rq_read_byte c) as [c1 b]. cbn [fst] in *.
+  intros H. injection H as <-. split; [exact N1|]. rewrite <- N2. reflexivity.
+Qed.
+Lemma rq_slice_nf c from to :
+  match k_data (c_in c) with Some d => (to <= length d)%nat | None => (to <= from)%nat end -> nf c (fst (rq_slice c from to)).
+Proof.
+  unfold rq_slice. destruct (k_data (c_in c)) as [d|]; intros H.
+  - replace (to <=? length d)%nat with true by (symmetry; apply Nat.leb_le; exact H). apply nf_refl.
+  - replace (to <=? from)%nat with true by (symmetry; apply Nat.leb_le; exact H). apply nf_refl.
+Qed.
+(* [consume, read) of a well-formed readable cursor *)
+Lemma rq_slice_cr_nf c : rq_wf c -> rq_readable c -> nf c (fst (rq_slice c (k_consume (c_in c)) (k_read (c_in c)))).
+Proof.
+  intros (W1 & W2 & W3) Rd. apply rq_slice_nf. unfold rq_readable, rq_rd, rq_len, rq_cs in *.
+  destruct (k_data (c_in c)); [lia|]. specialize (Rd eq_refl). lia.
+Qed.
+Lemma req_buffer_nf g c : rq_wf c -> rq_readable c -> c_in_tx c <> None -> nf c (snd (req_buffer g c)).
+Proof.
+  intros W Rd N. pose proof W as (W1 & W2 & W3). unfold rq_rd, rq_len, rq_cs in *. unfold req_buffer.
+  destruct (k_data (c_in c)) eqn:Ed; [|apply nf_refl].
+  replace (k_read (c_in c) <? k_consume (c_in c))%nat with false by (symmetry; apply Nat.ltb_ge; exact W2).
+  destruct (_ =? 0)%nat; [apply nf_refl|]. destruct (c_in_tx c) eqn:Ei; [|congruence].
+  destruct (g_field_limit_hard g <? _)%nat; [apply nf_refl|].
+  pose proof (rq_slice_cr_nf c W Rd) as [N1 N2]. destruct (rq_slice c (k_consume (c_in c)) (k_read (c_in c))) as [c3 piece]. cbn [fst snd] in *.
+  split; [exact N1|]. rewrite <- N2. reflexivity.
+Qed.
+Lemma req_consolidate_data_nf g c : rq_wf c -> rq_readable c -> c_in_tx c <> None -> nf c (snd (fst (req_consolidate_data g c))).
+Proof.
+  intros W Rd N. unfold req_consolidate_data. destruct (k_buf (c_in c)).
+  - pose proof (req_buffer_nf g c W Rd N) as H. destruct (req_buffer g c) as [rc c1]. destruct rc; exact H.
+  - pose proof (rq_slice_cr_nf c W Rd) as H. destruct (rq_slice c (k_consume (c_in c)) (k_read (c_in c))). exact H.
+Qed.
+Lemma req_clear_buffer_nf c : nf c (req_clear_buffer c).
+Proof. split; reflexivity. Qed.
+Lemma rq_set_header_nf c h : nf c (rq_set_in (fun k => k <| k_header := h |>) c).
+Proof. split; reflexivity. Qed.
+
+(* cursor facts carried along a state function (outside gaps) *)
+Definition CW (c : connp) : Prop := rq_pre c /\ rq_readable c.
+Lemma CW_moved c c' : rq_moved c c' -> CW c -> CW c'.
+Proof.
+  intros M [P Rd]. split; [eapply rq_pre_moved; eassumption|]. destruct M as (Pp & _). unfold rq_pos in Pp. injection Pp as H1 H2 H3 H4 H5.
+  unfold rq_readable, rq_len in *. rewrite H5, H1. exact Rd.
+Qed.
+Lemma CW_core c c' : rq_core_st c' = rq_core_st c -> CW c -> CW c'.
+Proof. intros H. apply CW_moved. apply rq_moved_core. exact H. Qed.
+Lemma CW_copy c c' : rq_copy_byte c = Some c' -> CW c -> CW c' /\ (rq_cs c' < rq_rd c')%nat.
+Proof.
+  intros H [P Rd]. destruct (rq_pre_copy c c' P H) as [P' Lt]. split; [split; [exact P'|]|exact Lt].
+  apply rq_copy_byte_some in H. destruct H as (H1 & H2 & H3 & H4 & H5 & H6 & H7 & H8). unfold rq_readable in *. rewrite H8, H1. exact Rd.
+Qed.
+Lemma CW_next c c' : rq_next_byte c = Some c' -> CW c -> CW c'.
+Proof.
+  intros H [P Rd]. split; [eapply rq_pre_next; eassumption|].
+  apply rq_next_byte_some in H. destruct H as (H1 & H2 & H3 & H4 & H5 & H6 & H7 & H8). unfold rq_readable in *. rewrite H8, H1. exact Rd.
+Qed.
+Lemma CW_wf c : CW c -> rq_wf c. Proof. intros [[W _] _]. exact W. Qed.
+Lemma CW_rd c : CW c -> rq_readable c. Proof. intros [_ R]. exact R. Qed.
+
+(* the frame TI and the loop clauses need *)
+Definition gfr (c c' : connp) : Prop :=
+  c_in_state c' = c_in_state c /\ c_out_state c' = c_out_state c /\ ptrs c' = ptrs c /\
+  hk_le (hook_in c) (hook_in c') /\ hk_le (hook_out c) (hook_out c') /\ txs_rel tx_le c c' /\ c_out_status c' = c_out_status c.
+Lemma gfr_refl c : gfr c c.
+Proof. unfold gfr. repeat split; try apply hk_le_refl. apply txs_rel_refl. apply tx_le_pre. Qed.
+Lemma gfr_trans a b c : gfr a b -> gfr b c -> gfr a c.
+Proof.
+  intros (A1 & A2 & A3 & A4 & A5 & A6 & A7) (B1 & B2 & B3 & B4 & B5 & B6 & B7). unfold gfr. repeat split; try congruence.
+  - eapply hk_le_trans; eassumption.
+  - eapply hk_le_trans; eassumption.
+  - eapply txs_rel_trans; [apply tx_le_pre|eassumption|eassumption].
+Qed.
+Lemma nf_gfr a b : nf a b -> gfr a b.
+Proof.
+  intros [_ T]. unfold tiv in T. injection T as H1 H2 H3 H4 H5 H6 H7 H8 H9. unfold gfr, ptrs, hk_le. repeat split; try congruence; try (left; assumption).
+  apply txs_rel_of_eq; [apply tx_le_pre|assumption|assumption].
+Qed.
+Lemma fr_gfr a b : fr a b -> gfr a b.
+Proof.
+  intros (S & P & X & H1 & H2 & _). unfold gfr. repeat split; try assumption.
+  - apply skel_in_state. exact S.
+  - apply skel_out_state. exact S.
+  - apply skel_out_status. exact S.
+Qed.
+Lemma gfr_live a b i : gfr a b -> live a i -> live b i.
+Proof. intros (_ & _ & _ & _ & _ & X & _). eapply txs_rel_live. exact X. Qed.
+Lemma gfr_in_tx a b : gfr a b -> c_in_tx b = c_in_tx a.
+Proof. intros (_ & _ & P & _). unfold ptrs in P. congruence. Qed.
+
+Lemma TI_gfr c c' : TI c -> gfr c c' -> TI c'.
+Proof.
+  intros [Ti To] (A1 & A2 & A3 & A4 & A5 & A6 & A7). unfold ptrs in A3. injection A3 as P1 P2. split.
+  - eapply TIin_frame; try eassumption. eapply txs_rel_weaken; [|exact A6]. intros t t' [H _]. exact H.
+  - eapply TIout_frame; try eassumption. eapply txs_rel_weaken; [|exact A6]. intros t t' [_ H]. exact H.
+Qed.
+
+(* setting in_state *)
+Lemma TI_set_state c s :
+  TI c -> (armed (c_in c) -> s = REQ_HEADERS \/ s = REQ_FINALIZE) ->
+  (uri_state s -> txp c (c_in_tx c) (fun t => t_parsed_uri t <> None)) -> TI (c <| c_in_state := s |>).
+Proof.
+  intros [[A1 A2 A3 A4] [B1 B2 B3]] Ha Hu. split; constructor; try assumption.
+  intros U. destruct (A3 U) as [N _]. split; [exact N|exact (Ha U)].
+Qed.
+
+Lemma RE_gfr os c c' : RE false os c -> gfr c c' -> c_fault c' = false -> CW c' -> RE false os c'.
+Proof.
+  intros [A1 A2 A3 A4 A5 A6 A7] G F [P Rd]. pose proof G as (G1 & G2 & G3 & G4 & G5 & G6 & G7).
+  constructor; try assumption.
+  - intros _. exact Rd.
+  - eapply TI_gfr; eassumption.
+  - unfold intx_ok. rewrite G1, (gfr_in_tx _ _ G). exact A5.
+  - intros Q. discriminate.
+  - rewrite G7. exact A7.
+Qed.
+Lemma RE_gfr_state os c c' s :
+  RE false os c -> gfr (c <| c_in_state := s |>) c' -> c_fault c' = false -> CW c' ->
+  (armed (c_in c) -> s = REQ_HEADERS \/ s = REQ_FINALIZE) ->
+  (uri_state s -> txp c (c_in_tx c) (fun t => t_parsed_uri t <> None)) ->
+  (s <> REQ_IDLE -> s <> REQ_IGNORE_DATA_AFTER_HTTP_0_9 -> c_in_tx c <> None) ->
+  RE false os c'.
+Proof.
+  intros [A1 A2 A3 A4 A5 A6 A7] G F [P Rd] Ha Hu Hi. pose proof G as (G1 & G2 & G3 & G4 & G5 & G6 & G7).
+  constructor; try assumption.
+  - intros _. exact Rd.
+  - eapply TI_gfr; [|exact G]. apply TI_set_state; assumption.
+  - unfold intx_ok. rewrite G1, (gfr_in_tx _ _ G). exact Hi.
+  - intros Q. discriminate.
+  - rewrite G7. exact A7.
+Qed.
+
+(* the same with parsed_uri established on the way *)
+Lemma RE_gfr_state_u os c c' s :
+  RE false os c -> gfr (c <| c_in_state := s |>) c' -> c_fault c' = false -> CW c' ->
+  (armed (c_in c) -> s = REQ_HEADERS \/ s = REQ_FINALIZE) ->
+  (uri_state s -> txp c' (c_in_tx c') (fun t => t_parsed_uri t <> None)) ->
+  (s <> REQ_IDLE -> s <> REQ_IGNORE_DATA_AFTER_HTTP_0_9 -> c_in_tx c <> None) ->
+  RE false os c'.
+Proof.
+  intros [A1 A2 A3 [[B1 B2 B3 B4] To] A5 A6 A7] G F [P Rd] Ha Hu Hi. pose proof G as (G1 & G2 & G3 & G4 & G5 & G6 & G7).
+  unfold ptrs in G3. injection G3 as P1 P2. cbn in G1, G2, P1, P2, G7.
+  assert (X : txs_rel tx_le c c') by exact G6.
+  constructor; try assumption.
+  - intros _. exact Rd.
+  - split.
+    + constructor.
+      * rewrite P1. eapply txs_rel_olive; eassumption.
+      * rewrite P1. eapply txs_rel_txp; [exact X| |exact B2]. intros t t' [[E _] _]. exact E.
+      * intros U. assert (U0 : armed (c_in c)) by (unfold armed, hook_in in *; destruct G4 as [Q|Q]; cbn in Q; congruence).
+        rewrite P1, G1. split; [exact (proj1 (B3 U0))|exact (Ha U0)].
+      * rewrite G1. exact Hu.
+    + eapply TIout_frame; [exact To|exact G2|exact P2|exact G5|]. eapply txs_rel_weaken; [|exact X]. intros t t' [_ E]. exact E.
+  - unfold intx_ok. rewrite G1, P1. exact Hi.
+  - intros Q. discriminate.
+  - rewrite G7. exact A7.
+Qed.
+
+(* what a pass of a state function establishes *)
+Definition okrc (rc : st) : Prop := rc = ST_OK \/ rc = ST_DATA \/ rc = ST_DATA_BUFFER \/ rc = ST_DATA_OTHER.
+Definition RPost (gap : bool) (os : Z) (rc : st) (c' : connp) : Prop :=
+  c_fault c' = false /\ (okrc rc -> RE gap os c') /\ (rc = ST_OK -> gap_head gap c') /\
+  (rc = ST_DATA_BUFFER -> c_in_tx c' <> None).        (* a pass that asks for buffering has a current transaction *)
+Definition RI (gap : bool) (os : Z) (c : connp) : Prop := RE gap os c /\ gap_head gap c.
+Lemma RPost_of_RE os rc c' :
+  RE false os c' -> (rc = ST_DATA_BUFFER -> c_in_state c' <> REQ_IDLE /\ c_in_state c' <> REQ_IGNORE_DATA_AFTER_HTTP_0_9) ->
+  RPost false os rc c'.
+Proof.
+  intros H Hb. split; [exact (re_fault _ _ _ H)|split; [intros _; exact H|split; [intros _ Q; discriminate|]]].
+  intros Q. destruct (Hb Q) as [N1 N2]. exact (re_intx _ _ _ H N1 N2).
+Qed.
+Lemma RPost_bad gap os rc c' : c_fault c' = false -> ~ okrc rc -> RPost gap os rc c'.
+Proof.
+  intros F N. unfold okrc in N. split; [exact F|split; [intros Q; contradiction|split; intros Q; exfalso; apply N; tauto]].
+Qed.
+Ltac notok := let Q := fresh "Q" in intros [Q|[Q|[Q|Q]]]; discriminate Q.
+(* discharges the side condition of RPost_of_RE: the result code is not DATA_BUFFER, or the state is known *)
+Ltac nb := let Q := fresh "Q" in intros Q; first [discriminate Q | cbn; split; (let QQ := fresh "QQ" in intros QQ; congruence)].
+
+Lemma RE_CW os c : RE false os c -> CW c.
+Proof. intros [A1 A2 A3 A4 A5 A6 A7]. split; [exact A2|exact (A3 eq_refl)]. Qed.
+
+Lemma RE_in_live gap os c i : RE gap os c -> c_in_tx c = Some i -> live c i.
+Proof. intros H E. pose proof (ti_in_live c (proj1 (re_ti _ _ _ H))) as L. rewrite E in L. exact L. Qed.
+
+(* rq_tx_upd with a record update that keeps progress and parsed_uri *)
+Lemma rq_tx_upd_fr gap os c f : RE gap os c -> c_in_tx c <> None -> (forall t, tx_le t (f t)) -> fr c (rq_tx_upd f c).
+Proof.
+  intros H N Hf. unfold rq_tx_upd. destruct (c_in_tx c) as [i|] eqn:E; [|congruence].
+  apply tx_upd_fr; [apply tx_le_pre|eapply RE_in_live; eassumption|exact Hf].
+Qed.
+
+Section States.
+Variable cb : cb_oracle.
+Variable g : cfg.
+Hypothesis cb_nodestroy : forall h n, cb h n <> CB_DESTROY_TX.
+
+Lemma RE_state_intx gap os c : RE gap os c -> c_in_state c <> REQ_IDLE -> c_in_state c <> REQ_IGNORE_DATA_AFTER_HTTP_0_9 -> c_in_tx c <> None.
+Proof. intros H. exact (re_intx _ _ _ H). Qed.
+
+Lemma CW_step c c' rc : rq_step_ok c c' rc -> CW c -> CW c'.
+Proof.
+  intros (S1 & S2 & S3 & S4 & S5) [_ Rd]. split; [exact S4|]. unfold rq_readable in *. rewrite S1, S2. exact Rd.
+Qed.
+Lemma gfr_set_misc c s : gfr (c <| c_in_state := s |>) (c <| c_in_state := s |>).
+Proof. apply gfr_refl. Qed.
+Ltac gfr_eq := unfold gfr, ptrs; cbn; repeat split; try apply hk_le_refl; try (apply txs_rel_of_eq; [apply tx_le_pre|reflexivity|reflexivity]).
+
+Lemma RE_not_armed gap os c : RE gap os c -> c_in_state c <> REQ_HEADERS -> c_in_state c <> REQ_FINALIZE -> ~ armed (c_in c).
+Proof. intros H N1 N2 U. destruct (ti_in_armed c (proj1 (re_ti _ _ _ H)) U) as [_ [Q|Q]]; contradiction. Qed.
+Lemma RE_uri gap os c : RE gap os c -> uri_state (c_in_state c) -> txp c (c_in_tx c) (fun t => t_parsed_uri t <> None).
+Proof. intros H. exact (ti_in_uri c (proj1 (re_ti _ _ _ H))). Qed.
+
+(* htp_connp_REQ_CONNECT_CHECK *)
+Lemma REQ_CONNECT_CHECK_safe os c rc c' :
+  RE false os c -> c_in_state c = REQ_CONNECT_CHECK -> REQ_CONNECT_CHECK_fn c = (rc, c') -> RPost false os rc c'.
+Proof.
+  intros H Es E. pose proof (RE_CW _ _ H) as W.
+  pose proof (CW_step _ _ _ (REQ_CONNECT_CHECK_fn_step c rc c' (proj1 W) E) W) as W'.
+  assert (N : c_in_tx c <> None) by (apply (RE_state_intx _ _ _ H); rewrite Es; discriminate).
+  assert (Na : ~ armed (c_in c)) by (apply (RE_not_armed _ _ _ H); rewrite Es; discriminate).
+  assert (Hu : txp c (c_in_tx c) (fun t => t_parsed_uri t <> None)) by (apply (RE_uri _ _ _ H); rewrite Es; exact I).
+  unfold REQ_CONNECT_CHECK_fn in E.
+  destruct (_ =? c_HTP_M_CONNECT); injection E as <- <-; (apply RPost_of_RE; [|nb]).
+  - eapply (RE_gfr_state os c _ REQ_CONNECT_WAIT_RESPONSE H); try (intros; assumption || contradiction); try exact (re_fault _ _ _ H); gfr_eq.
+  - eapply (RE_gfr_state os c _ REQ_BODY_DETERMINE H); try (intros; assumption || contradiction); try exact (re_fault _ _ _ H); gfr_eq.
+Qed.
+
+(* htp_connp_REQ_CONNECT_WAIT_RESPONSE *)
+Lemma REQ_CONNECT_WAIT_RESPONSE_safe os c rc c' :
+  RE false os c -> c_in_state c = REQ_CONNECT_WAIT_RESPONSE -> REQ_CONNECT_WAIT_RESPONSE_fn c = (rc, c') -> RPost false os rc c'.
+Proof.
+  intros H Es E. pose proof (RE_CW _ _ H) as W.
+  pose proof (CW_step _ _ _ (REQ_CONNECT_WAIT_RESPONSE_fn_step c rc c' (proj1 W) E) W) as W'.
+  assert (N : c_in_tx c <> None) by (apply (RE_state_intx _ _ _ H); rewrite Es; discriminate).
+  assert (Na : ~ armed (c_in c)) by (apply (RE_not_armed _ _ _ H); rewrite Es; discriminate).
+  assert (Hu : txp c (c_in_tx c) (fun t => t_parsed_uri t <> None)) by (apply (RE_uri _ _ _ H); rewrite Es; exact I).
+  unfold REQ_CONNECT_WAIT_RESPONSE_fn in E.
+  destruct (_ <=? c_HTP_RESPONSE_LINE); [injection E as <- <-; apply RPost_of_RE; [exact H|nb]|].
+  destruct (_ && _); injection E as <- <-; (apply RPost_of_RE; [|nb]).
+  - eapply (RE_gfr_state os c _ REQ_CONNECT_PROBE_DATA H); try (intros; assumption || contradiction); try exact (re_fault _ _ _ H); gfr_eq.
+  - eapply (RE_gfr_state os c _ REQ_FINALIZE H); try (intros; assumption || contradiction); try exact (re_fault _ _ _ H); gfr_eq.
+Qed.
+
+Lemma rq_tx_upd_fr' c f i : c_in_tx c = Some i -> live c i -> (forall t, tx_le t (f t)) -> fr c (rq_tx_upd f c).
+Proof. intros E L Hf. unfold rq_tx_upd. rewrite E. apply tx_upd_fr; [apply tx_le_pre|exact L|exact Hf]. Qed.
+
+Lemma RE_in_tx_some gap os c : RE gap os c -> c_in_tx c <> None -> exists i, c_in_tx c = Some i /\ live c i.
+Proof. intros H N. destruct (c_in_tx c) as [i|] eqn:E; [|congruence]. exists i. split; [reflexivity|eapply RE_in_live; eassumption]. Qed.
+
+(* htp_connp_REQ_BODY_DETERMINE *)
+Lemma REQ_BODY_DETERMINE_safe os c rc c' :
+  RE false os c -> c_in_state c = REQ_BODY_DETERMINE -> REQ_BODY_DETERMINE_fn c = (rc, c') -> RPost false os rc c'.
+Proof.
+  intros H Es E. pose proof (RE_CW _ _ H) as W.
+  pose proof (CW_step _ _ _ (REQ_BODY_DETERMINE_fn_step c rc c' (proj1 W) E) W) as W'.
+  assert (N : c_in_tx c <> None) by (apply (RE_state_intx _ _ _ H); rewrite Es; discriminate).
+  assert (Na : ~ armed (c_in c)) by (apply (RE_not_armed _ _ _ H); rewrite Es; discriminate).
+  assert (Hu : txp c (c_in_tx c) (fun t => t_parsed_uri t <> None)) by (apply (RE_uri _ _ _ H); rewrite Es; exact I).
+  destruct (RE_in_tx_some _ _ _ H N) as (i & Ei & L).
+  pose proof (re_fault _ _ _ H) as F.
+  unfold REQ_BODY_DETERMINE_fn in E.
+  destruct (_ =? c_HTP_CODING_CHUNKED).
+  { injection E as <- <-. (apply RPost_of_RE; [|nb]).
+    match goal with |- RE _ _ (rq_tx_upd ?f ?x) => pose proof (rq_tx_upd_fr' x f i Ei L ltac:(tx_le_tac)) as R end.
+    eapply (RE_gfr_state os c _ REQ_BODY_CHUNKED_LENGTH H); try (intros; assumption || contradiction);
+      [eapply gfr_trans; [|apply fr_gfr; exact R]; gfr_eq|rewrite (frR_fault _ _ _ R); exact F]. }
+  destruct (_ =? c_HTP_CODING_IDENTITY).
+  { destruct (negb _); injection E as <- <-; (apply RPost_of_RE; [|nb]).
+    - match goal with |- RE _ _ (rq_tx_upd ?f ?x) => pose proof (rq_tx_upd_fr' x f i Ei L ltac:(tx_le_tac)) as R end.
+      eapply (RE_gfr_state os c _ REQ_BODY_IDENTITY H); try (intros; assumption || contradiction);
+        [eapply gfr_trans; [|apply fr_gfr; exact R]; gfr_eq|rewrite (frR_fault _ _ _ R); exact F].
+    - eapply (RE_gfr_state os c _ REQ_FINALIZE H); try (intros; assumption || contradiction); try exact F; gfr_eq. }
+  destruct (_ =? c_HTP_CODING_NO_BODY); injection E as <- <-.
+  - (apply RPost_of_RE; [|nb]). eapply (RE_gfr_state os c _ REQ_FINALIZE H); try (intros; assumption || contradiction); try exact F; gfr_eq.
+  - apply RPost_bad; [exact F|notok].
+Qed.
+
+(* htp_connp_REQ_IGNORE_DATA_AFTER_HTTP_0_9 (also runs during gaps) *)
+Lemma REQ_IGNORE_safe gap os c rc c' :
+  RE gap os c -> c_in_state c = REQ_IGNORE_DATA_AFTER_HTTP_0_9 -> REQ_IGNORE_DATA_AFTER_HTTP_0_9_fn c = (rc, c') -> RPost gap os rc c'.
+Proof.
+  intros H Es E. pose proof H as [A1 A2 A3 A4 A5 A6 A7].
+  pose proof (REQ_IGNORE_fn_step c rc c' A2 Es E) as (S1 & S2 & S3 & S4 & S5).
+  assert (Na : ~ armed (c_in c)) by (apply (RE_not_armed _ _ _ H); rewrite Es; discriminate).
+  unfold REQ_IGNORE_DATA_AFTER_HTTP_0_9_fn in E. injection E as <- <-.
+  set (c1 := if (0 <? _)%nat then _ else c) in *.
+  assert (T : tiv c1 = tiv c /\ c_fault c1 = c_fault c /\ c_in c1 = c_in c) by (subst c1; destruct (0 <? _)%nat; repeat split; reflexivity).
+  destruct T as (T1 & T2 & T3).
+  assert (R : RE gap os (rq_set_in (fun k => k <| k_read ::= Nat.add (k_len (c_in c) - k_read (c_in c)) |> <| k_consume ::= Nat.add (k_len (c_in c) - k_read (c_in c)) |>) c1)).
+  { pose proof T1 as T1'. unfold tiv in T1'. injection T1' as H1 H2 H3 H4 H5 H6 H7 H8 H9. constructor.
+    - cbn. congruence.
+    - exact S4.
+    - intros G. specialize (A3 G). unfold rq_readable, rq_len in *. cbn. rewrite T3. exact A3.
+    - eapply TI_tiv; [|exact A4]. unfold tiv, hook_in, hook_out in *. cbn. congruence.
+    - unfold intx_ok. cbn. rewrite H1, H3. exact A5.
+    - intros G U. exfalso. apply Na. unfold armed in *. cbn in U. rewrite T3 in U. exact U.
+    - cbn. rewrite H9. exact A7. }
+  split; [exact (re_fault _ _ _ R)|split; [intros _; exact R|split; intros Q; discriminate]].
+Qed.
+
+Lemma gfr_set_in_state a b s : gfr a b -> gfr (a <| c_in_state := s |>) (b <| c_in_state := s |>).
+Proof. intros (A1 & A2 & A3 & A4 & A5 & A6 & A7). unfold gfr. repeat split; assumption. Qed.
+Lemma gfr_fault_nf a b : nf a b -> c_fault b = c_fault a. Proof. intros [H _]. exact H. Qed.
+
+Lemma rq_to_headers_ok c0 i :
+  c_in_tx c0 = Some i -> live c0 i ->
+  c_fault (rq_to_headers c0) = c_fault c0 /\ gfr (c0 <| c_in_state := REQ_HEADERS |>) (rq_to_headers c0).
+Proof.
+  intros Ei L. unfold rq_to_headers.
+  match goal with |- context [rq_tx_upd ?f ?x] =>
+    assert (Ex : c_in_tx x = Some i) by exact Ei; assert (Lx : live x i) by exact L;
+    pose proof (rq_tx_upd_fr' x f i Ex Lx ltac:(tx_le_tac)) as R end.
+  split; [rewrite (frR_fault _ _ _ R); reflexivity|apply fr_gfr; exact R].
+Qed.
+
+(* htp_connp_REQ_PROTOCOL *)
+Lemma REQ_PROTOCOL_safe os c rc c' :
+  RE false os c -> c_in_state c = REQ_PROTOCOL -> REQ_PROTOCOL_fn c = (rc, c') -> RPost false os rc c'.
+Proof.
+  intros H Es E. pose proof (RE_CW _ _ H) as W.
+  pose proof (CW_step _ _ _ (REQ_PROTOCOL_fn_step c rc c' (proj1 W) E) W) as W'.
+  assert (N : c_in_tx c <> None) by (apply (RE_state_intx _ _ _ H); rewrite Es; discriminate).
+  assert (Na : ~ armed (c_in c)) by (apply (RE_not_armed _ _ _ H); rewrite Es; discriminate).
+  assert (Hu : txp c (c_in_tx c) (fun t => t_parsed_uri t <> None)) by (apply (RE_uri _ _ _ H); rewrite Es; exact I).
+  destruct (RE_in_tx_some _ _ _ H N) as (i & Ei & L).
+  pose proof (re_fault _ _ _ H) as F.
+  assert (Fin : forall s, gfr (c <| c_in_state := s |>) c' -> c_fault c' = false -> (s = REQ_HEADERS \/ s = REQ_FINALIZE) -> RPost false os rc c').
+  { intros s G F' Hs. apply RPost_of_RE; [|intros _; destruct G as (G1 & _); cbn in G1; rewrite G1; destruct Hs as [-> | ->]; split; discriminate].
+    eapply (RE_gfr_state os c c' s H G F' W'); try (intros; assumption || contradiction). }
+  assert (Miss : forall c0, c_in_tx c0 = Some i -> live c0 i ->
+            let c1 := rq_to_headers (rq_tx_upd (fun t => t <| t_is_protocol_0_9 := false |>) c0) in
+            c_fault c1 = c_fault c0 /\ gfr (c0 <| c_in_state := REQ_HEADERS |>) c1).
+  { intros c0 E0 L0. cbv zeta.
+    match goal with |- context [rq_to_headers (rq_tx_upd ?f c0)] =>
+      pose proof (rq_tx_upd_fr' c0 f i E0 L0 ltac:(tx_le_tac)) as R0;
+      destruct (rq_to_headers_ok (rq_tx_upd f c0) i) as [F1 G1] end.
+    { rewrite (frR_in_tx _ _ _ R0). exact E0. } { eapply frR_live; eassumption. }
+    split; [rewrite F1; exact (frR_fault _ _ _ R0)|]. eapply gfr_trans; [|exact G1]. apply gfr_set_in_state. apply fr_gfr. exact R0. }
+  unfold REQ_PROTOCOL_fn in E.
+  destruct (negb _).
+  { injection E as <- <-. destruct (rq_to_headers_ok c i Ei L) as [F1 G1]. apply (Fin REQ_HEADERS G1); [congruence|tauto]. }
+  destruct (_ <? _)%nat.
+  { injection E as <- <-. destruct (Miss c Ei L) as [F1 G1]. apply (Fin REQ_HEADERS G1); [congruence|tauto]. }
+  assert (Sl : nf c (fst (rq_slice c (k_read (c_in c)) (k_len (c_in c))))).
+  { apply rq_slice_nf. destruct W as [[(W1 & W2 & W3) _] Rd]. unfold rq_readable, rq_len, rq_rd in *.
+    destruct (k_data (c_in c)); [exact W3|]. rewrite (Rd eq_refl). lia. }
+  destruct (rq_slice c (k_read (c_in c)) (k_len (c_in c))) as [c1 rest]. cbn [fst] in Sl.
+  pose proof (nf_gfr _ _ Sl) as G0. pose proof (gfr_fault_nf _ _ Sl) as F0.
+  destruct (forallb htp_is_space rest); injection E as <- <-.
+  - apply (Fin REQ_FINALIZE); [apply gfr_set_in_state; exact G0|cbn; congruence|tauto].
+  - destruct (Miss c1) as [F1 G1]; [rewrite (gfr_in_tx _ _ G0); exact Ei|eapply gfr_live; eassumption|].
+    apply (Fin REQ_HEADERS); [eapply gfr_trans; [apply gfr_set_in_state; exact G0|exact G1]|congruence|tauto].
+Qed.
+
+Lemma nf_CW_moved a b : nf a b -> rq_moved a b -> CW a -> c_fault a = false -> c_fault b = false /\ CW b.
+Proof. intros [N _] M W F. split; [congruence|eapply CW_moved; eassumption]. Qed.
+
+(* htp_connp_REQ_LINE_complete *)
+Lemma REQ_LINE_complete_safe os c rc c' :
+  RE false os c -> c_in_state c = REQ_LINE -> REQ_LINE_complete cb g c = (rc, c') -> RPost false os rc c'.
+Proof.
+  intros H Es E. pose proof (RE_CW _ _ H) as W. pose proof (re_fault _ _ _ H) as F.
+  assert (W' : CW c').
+  { destruct (REQ_LINE_complete_step cb g c rc c' (proj1 W) E) as [S|(_ & M & _)]; [eapply CW_step; eassumption|eapply CW_moved; eassumption]. }
+  assert (N : c_in_tx c <> None) by (apply (RE_state_intx _ _ _ H); rewrite Es; discriminate).
+  assert (Na : ~ armed (c_in c)) by (apply (RE_not_armed _ _ _ H); rewrite Es; discriminate).
+  destruct (RE_in_tx_some _ _ _ H N) as (i & Ei & L).
+  unfold REQ_LINE_complete in E.
+  pose proof (req_consolidate_data_nf g c (CW_wf _ W) (CW_rd _ W) N) as N1.
+  pose proof (req_consolidate_data_moved g c) as M1.
+  destruct (req_consolidate_data g c) as [[rc1 c1] data]. cbn [fst snd] in *.
+  pose proof (nf_gfr _ _ N1) as G1. assert (F1 : c_fault c1 = false) by (rewrite (gfr_fault_nf _ _ N1); exact F).
+  assert (Same : forall c2, gfr c1 c2 -> c_fault c2 = false -> c' = c2 -> RPost false os rc c').
+  { intros c2 G2 F2 ->. apply RPost_of_RE; [|intros _; rewrite (proj1 G2), (proj1 G1), Es; split; discriminate].
+    eapply RE_gfr; [exact H|eapply gfr_trans; eassumption|exact F2|exact W']. }
+  destruct rc1; try (injection E as <- <-; apply (Same c1 (gfr_refl c1) F1 eq_refl)).
+  destruct data as [|x data].
+  { injection E as <- <-. apply (Same (req_clear_buffer c1)); [apply nf_gfr; apply req_clear_buffer_nf|exact F1|reflexivity]. }
+  assert (E1 : c_in_tx c1 = Some i) by (rewrite (gfr_in_tx _ _ G1); exact Ei).
+  assert (L1 : live c1 i) by (eapply gfr_live; eassumption).
+  destruct (htp_is_line_ignorable (g_personality g) (x :: data)).
+  { injection E as <- <-.
+    match goal with |- context [rq_tx_upd ?f c1] => pose proof (rq_tx_upd_fr' c1 f i E1 L1 ltac:(tx_le_tac)) as R end.
+    eapply Same; [|shelve|reflexivity]. eapply gfr_trans; [apply fr_gfr; exact R|apply nf_gfr; apply req_clear_buffer_nf].
+    Unshelve. cbn. rewrite (frR_fault _ _ _ R). exact F1. }
+  match type of E with context [rq_tx_upd ?f c1] =>
+    pose proof (rq_tx_upd_fr' c1 f i E1 L1) as R; set (c2 := rq_tx_upd f c1) in * end.
+  assert (R2 : fr c1 c2).
+  { apply R. intros t. apply tx_le_of_prog3. rewrite prog3_parse_request_line. reflexivity. }
+  clear R. assert (F2 : c_fault c2 = false) by (rewrite (frR_fault _ _ _ R2); exact F1).
+  assert (E2 : c_in_tx c2 = Some i) by (rewrite (frR_in_tx _ _ _ R2); exact E1).
+  assert (L2 : live c2 i) by (eapply frR_live; eassumption).
+  unfold rq_with_tx in E. rewrite E2 in E.
+  destruct (request_line_safe cb g cb_nodestroy i c2 F2 L2) as (F3 & Hok & Hno).
+  destruct (tx_state_request_line cb g i c2) as [rc3 c3]. cbn [fst snd] in *.
+  destruct rc3; injection E as <- <-; try (apply (Same c3); [eapply gfr_trans; [apply fr_gfr; exact R2|apply fr_gfr; apply Hno; discriminate]|exact F3|reflexivity]).
+  destruct (Hok eq_refl) as [R3 U3]. (apply RPost_of_RE; [|nb]).
+  assert (G3 : gfr (c <| c_in_state := REQ_PROTOCOL |>) (req_clear_buffer c3)).
+  { eapply gfr_trans; [apply gfr_set_in_state; eapply gfr_trans; [exact G1|apply fr_gfr; exact R2]|].
+    eapply gfr_trans; [apply fr_gfr; exact R3|apply nf_gfr; apply req_clear_buffer_nf]. }
+  eapply (RE_gfr_state_u os c _ REQ_PROTOCOL H G3); try (intros; assumption || contradiction); try exact F3.
+  intros _. rewrite (gfr_in_tx _ _ G3). change (c_in_tx (c <| c_in_state := REQ_PROTOCOL |>)) with (c_in_tx c). rewrite Ei. exact U3.
+Qed.
+
+Lemma RE_nf_moved os c c' : RE false os c -> nf c c' -> rq_moved c c' -> RE false os c' /\ c_in_state c' = c_in_state c.
+Proof.
+  intros H N M. pose proof (RE_CW _ _ H) as W. split; [|destruct M as (_ & S & _); exact S].
+  eapply RE_gfr; [exact H|apply nf_gfr; exact N|rewrite (gfr_fault_nf _ _ N); exact (re_fault _ _ _ H)|eapply CW_moved; eassumption].
+Qed.
+Lemma RE_peek os c : RE false os c -> RE false os (rq_peek_next c) /\ c_in_state (rq_peek_next c) = c_in_state c.
+Proof.
+  intros H. pose proof (RE_CW _ _ H) as W. apply RE_nf_moved; [exact H|apply rq_peek_next_nf; [exact (CW_wf _ W)|exact (CW_rd _ W)]|apply rq_peek_next_moved].
+Qed.
+Lemma RE_copy os c c' : RE false os c -> rq_copy_byte c = Some c' ->
+  RE false os c' /\ c_in_state c' = c_in_state c /\ (rq_cs c' < rq_rd c')%nat /\ rq_len c' = rq_len c /\ rq_rd c' = S (rq_rd c) /\ (rq_rd c < rq_len c)%nat.
+Proof.
+  intros H E. pose proof (RE_CW _ _ H) as W. destruct (CW_copy _ _ E W) as [W' Lt].
+  pose proof (rq_copy_byte_nf c c' (CW_wf _ W) (CW_rd _ W) E) as N.
+  pose proof (rq_copy_byte_some _ _ E) as (C1 & C2 & C3 & C4 & C5 & C6 & C7 & C8).
+  split; [|repeat split; assumption].
+  eapply RE_gfr; [exact H|apply nf_gfr; exact N|rewrite (gfr_fault_nf _ _ N); exact (re_fault _ _ _ H)|exact W'].
+Qed.
+Lemma RE_next os c c' : RE false os c -> rq_next_byte c = Some c' ->
+  RE false os c' /\ c_in_state c' = c_in_state c /\ rq_len c' = rq_len c /\ rq_rd c' = S (rq_rd c) /\ (rq_rd c < rq_len c)%nat.
+Proof.
+  intros H E. pose proof (RE_CW _ _ H) as W. pose proof (CW_next _ _ E W) as W'.
+  pose proof (rq_next_byte_nf c c' (CW_wf _ W) (CW_rd _ W) E) as N.
+  pose proof (rq_next_byte_some _ _ E) as (C1 & C2 & C3 & C4 & C5 & C6 & C7 & C8).
+  split; [|repeat split; assumption].
+  eapply RE_gfr; [exact H|apply nf_gfr; exact N|rewrite (gfr_fault_nf _ _ N); exact (re_fault _ _ _ H)|exact W'].
+Qed.
+Lemma peek_pos c : rq_len (rq_peek_next c) = rq_len c /\ rq_rd (rq_peek_next c) = rq_rd c.
+Proof. pose proof (rq_peek_next_pos c) as (P1 & _). unfold rq_pos, rq_len, rq_rd in *. injection P1 as H1 H2 _ _ _. split; assumption. Qed.
+
+(* htp_connp_REQ_LINE *)
+Lemma REQ_LINE_loop_safe os n : forall c rc c',
+  RE false os c -> c_in_state c = REQ_LINE -> (rq_len c - rq_rd c <= n)%nat -> REQ_LINE_loop cb g n c = (rc, c') -> RPost false os rc c'.
+Proof.
+  induction n as [|n IH]; intros c rc c' H Es Hn E; cbn [REQ_LINE_loop] in E.
+  all: destruct (RE_peek _ _ H) as [H0 S0]; destruct (peek_pos c) as [PL PR]; rewrite Es in S0.
+  all: destruct ((c_in_status (rq_peek_next c) =? c_HTP_STREAM_CLOSED) && _); [exact (REQ_LINE_complete_safe os _ rc c' H0 S0 E)|].
+  all: destruct (rq_copy_byte (rq_peek_next c)) as [c2|] eqn:Ec; [|injection E as <- <-; apply RPost_of_RE; [exact H0|nb]].
+  all: destruct (RE_copy _ _ _ H0 Ec) as (H2 & S2 & _ & L2 & R2 & Lt2); rewrite S0 in S2.
+  all: destruct (rq_next_is c2 LF); [exact (REQ_LINE_complete_safe os _ rc c' H2 S2 E)|].
+  - exfalso. lia.
+  - apply (IH c2 rc c' H2 S2); [lia|exact E].
+Qed.
+Lemma REQ_LINE_safe os c rc c' :
+  RE false os c -> c_in_state c = REQ_LINE -> REQ_LINE_fn cb g c = (rc, c') -> RPost false os rc c'.
+Proof. intros H Es E. unfold REQ_LINE_fn in E. eapply REQ_LINE_loop_safe; [exact H|exact Es| |exact E]. unfold rq_len, rq_rd. lia. Qed.
+End States.
+
+(* the general form of RE_gfr_state_u (gaps included) *)
+Lemma RE_mk gap os c c' s :
+  RE gap os c -> gfr (c <| c_in_state := s |>) c' -> c_fault c' = false -> rq_pre c' -> (gap = false -> rq_readable c') ->
+  gap_ok gap c' ->
+  (armed (c_in c) -> s = REQ_HEADERS \/ s = REQ_FINALIZE) ->
+  (uri_state s -> txp c' (c_in_tx c') (fun t => t_parsed_uri t <> None)) ->
+  (s <> REQ_IDLE -> s <> REQ_IGNORE_DATA_AFTER_HTTP_0_9 -> c_in_tx c <> None) ->
+  RE gap os c'.
+Proof.
+  intros [A1 A2 A3 [[B1 B2 B3 B4] To] A5 A6 A7] G F P Rd Gk Ha Hu Hi. pose proof G as (G1 & G2 & G3 & G4 & G5 & G6 & G7).
+  unfold ptrs in G3. injection G3 as P1 P2. cbn in G1, G2, P1, P2, G7.
+  assert (X : txs_rel tx_le c c') by exact G6.
+  constructor; try assumption.
+  - split.
+    + constructor.
+      * rewrite P1. eapply txs_rel_olive; eassumption.
+      * rewrite P1. eapply txs_rel_txp; [exact X| |exact B2]. intros t t' [[E _] _]. exact E.
+      * intros U. assert (U0 : armed (c_in c)) by (unfold armed, hook_in in *; destruct G4 as [Q|Q]; cbn in Q; congruence).
+        rewrite P1, G1. split; [exact (proj1 (B3 U0))|exact (Ha U0)].
+      * rewrite G1. exact Hu.
+    + eapply TIout_frame; [exact To|exact G2|exact P2|exact G5|]. eapply txs_rel_weaken; [|exact X]. intros t t' [_ E]. exact E.
+  - unfold intx_ok. rewrite G1, P1. exact Hi.
+  - rewrite G7. exact A7.
+Qed.
+(* same state *)
+Lemma RE_mk_same gap os c c' :
+  RE gap os c -> gfr c c' -> c_fault c' = false -> rq_pre c' -> (gap = false -> rq_readable c') -> gap_ok gap c' -> RE gap os c'.
+Proof.
+  intros H G F P Rd Gk. pose proof H as [A1 A2 A3 [Ti To] A5 A6 A7].
+  apply (RE_mk gap os c c' (c_in_state c) H); try assumption.
+  - intros U. exact (proj2 (ti_in_armed c Ti U)).
+  - intros U. pose proof (ti_in_uri c Ti U) as Q. rewrite (gfr_in_tx _ _ G).
+    destruct G as (_ & _ & _ & _ & _ & X & _). eapply txs_rel_txp; [exact X| |exact Q]. intros t t' [[_ E] _]. exact E.
+Qed.
+Lemma gap_ok_not_armed gap c : ~ armed (c_in c) -> gap_ok gap c.
+Proof. intros N _ U. contradiction. Qed.
+Lemma gfr_not_armed c c' : gfr c c' -> ~ armed (c_in c) -> ~ armed (c_in c').
+Proof. intros (_ & _ & _ & [Q|Q] & _) N U; unfold armed, hook_in in *; [apply N; congruence|congruence]. Qed.
+Lemma step_readable c c' rc gap : rq_step_ok c c' rc -> (gap = false -> rq_readable c) -> gap = false -> rq_readable c'.
+Proof. intros (S1 & S2 & _) Rd G. specialize (Rd G). unfold rq_readable in *. rewrite S1, S2. exact Rd. Qed.
+
+Ltac gfr_eq := unfold gfr, ptrs; cbn; repeat split; try apply hk_le_refl; try (apply txs_rel_of_eq; [apply tx_le_pre|reflexivity|reflexivity]).
+
+Lemma rq_upd_state_ok c0 i f s :
+  c_in_tx c0 = Some i -> live c0 i -> (forall t, tx_le t (f t)) ->
+  c_fault (rq_tx_upd f (c0 <| c_in_state := s |>)) = c_fault c0 /\ gfr (c0 <| c_in_state := s |>) (rq_tx_upd f (c0 <| c_in_state := s |>)).
+Proof.
+  intros Ei L Hf.
+  match goal with |- context [rq_tx_upd f ?x] =>
+    assert (Ex : c_in_tx x = Some i) by exact Ei; assert (Lx : live x i) by exact L;
+    pose proof (rq_tx_upd_fr' x f i Ex Lx Hf) as R end.
+  split; [rewrite (frR_fault _ _ _ R); reflexivity|apply fr_gfr; exact R].
+Qed.
+
+Section States2.
+Variable cb : cb_oracle.
+Variable g : cfg.
+Hypothesis cb_nodestroy : forall h n, cb h n <> CB_DESTROY_TX.
+
+(* htp_connp_REQ_BODY_CHUNKED_DATA_END *)
+Lemma REQ_BODY_CHUNKED_DATA_END_loop_safe os n : forall c rc c',
+  RE false os c -> c_in_state c = REQ_BODY_CHUNKED_DATA_END -> (rq_len c - rq_rd c <= n)%nat ->
+  REQ_BODY_CHUNKED_DATA_END_loop n c = (rc, c') -> RPost false os rc c'.
+Proof.
+  induction n as [|n IH]; intros c rc c' H Es Hn E.
+  all: pose proof (CW_step _ _ _ (REQ_BODY_CHUNKED_DATA_END_loop_step _ c rc c' (re_pre _ _ _ H) Es Hn E) (RE_CW _ _ H)) as W'.
+  all: cbn [REQ_BODY_CHUNKED_DATA_END_loop] in E.
+  all: destruct (rq_next_byte c) as [c1|] eqn:En; [|injection E as <- <-; apply RPost_of_RE; [exact H|nb]].
+  all: destruct (RE_next _ _ _ H En) as (H1 & S1 & L1 & R1 & Lt1); rewrite Es in S1.
+  all: assert (N1 : c_in_tx c1 <> None) by (apply (RE_state_intx _ _ _ H1); rewrite S1; discriminate).
+  all: destruct (RE_in_tx_some _ _ _ H1 N1) as (i & Ei & L).
+  all: match type of H1 with RE _ _ ?x => match type of E with context [rq_tx_upd ?f x] =>
+         pose proof (rq_tx_upd_fr' x f i Ei L ltac:(tx_le_tac)) as R; set (c2 := rq_tx_upd f x) in * end end.
+  all: assert (F2 : c_fault c2 = false) by (rewrite (frR_fault _ _ _ R); exact (re_fault _ _ _ H1)).
+  all: assert (H2 : RE false os c2) by (eapply RE_fr; eassumption).
+  all: assert (S2 : c_in_state c2 = REQ_BODY_CHUNKED_DATA_END) by (rewrite (frR_in_state _ _ _ R); exact S1).
+  all: destruct (rq_next_is c2 LF).
+  1,3: injection E as <- <-; (apply RPost_of_RE; [|nb]);
+       eapply (RE_gfr_state_u os c2 _ REQ_BODY_CHUNKED_LENGTH H2 (gfr_refl _) F2 W');
+       [intros U; exfalso; revert U; apply (RE_not_armed _ _ _ H2); rewrite S2; discriminate
+       |intros _; apply (RE_uri _ _ _ H2); rewrite S2; exact I
+       |intros _ _; apply (RE_state_intx _ _ _ H2); rewrite S2; discriminate].
+  - exfalso. lia.
+  - apply (IH c2 rc c' H2 S2); [|exact E]. pose proof (frR_core _ _ _ R) as C. destruct (rq_core_fields _ _ C) as (E1 & E2 & E3 & E4 & E5).
+    unfold rq_len, rq_rd in *. rewrite E2, E3. lia.
+Qed.
+Lemma REQ_BODY_CHUNKED_DATA_END_safe os c rc c' :
+  RE false os c -> c_in_state c = REQ_BODY_CHUNKED_DATA_END -> REQ_BODY_CHUNKED_DATA_END_fn c = (rc, c') -> RPost false os rc c'.
+Proof. intros H Es E. unfold REQ_BODY_CHUNKED_DATA_END_fn in E. eapply REQ_BODY_CHUNKED_DATA_END_loop_safe; [exact H|exact Es| |exact E]. unfold rq_len, rq_rd. lia. Qed.
+
+Lemma RE_consolidate os c : RE false os c -> c_in_tx c <> None ->
+  RE false os (snd (fst (req_consolidate_data g c))) /\ c_in_state (snd (fst (req_consolidate_data g c))) = c_in_state c /\
+  gfr c (snd (fst (req_consolidate_data g c))).
+Proof.
+  intros H N. pose proof (RE_CW _ _ H) as W.
+  pose proof (req_consolidate_data_nf g c (CW_wf _ W) (CW_rd _ W) N) as N1.
+  destruct (RE_nf_moved _ _ _ H N1 (req_consolidate_data_moved g c)) as [H1 S1]. split; [exact H1|split; [exact S1|apply nf_gfr; exact N1]].
+Qed.
+
+(* htp_connp_REQ_BODY_CHUNKED_LENGTH *)
+Lemma REQ_BODY_CHUNKED_LENGTH_loop_safe os n : forall c rc c',
+  RE false os c -> c_in_state c = REQ_BODY_CHUNKED_LENGTH -> (rq_len c - rq_rd c <= n)%nat ->
+  REQ_BODY_CHUNKED_LENGTH_loop g n c = (rc, c') -> RPost false os rc c'.
+Proof.
+  induction n as [|n IH]; intros c rc c' H Es Hn E.
+  all: pose proof (CW_step _ _ _ (REQ_BODY_CHUNKED_LENGTH_loop_step g _ c rc c' (re_pre _ _ _ H) Es Hn E) (RE_CW _ _ H)) as W'.
+  all: cbn [REQ_BODY_CHUNKED_LENGTH_loop] in E.
+  all: destruct (rq_copy_byte c) as [c1|] eqn:Ec; [|injection E as <- <-; apply RPost_of_RE; [exact H|nb]].
+  all: destruct (RE_copy _ _ _ H Ec) as (H1 & S1 & _ & L1 & R1 & Lt1); rewrite Es in S1.
+  all: destruct (rq_next_is c1 LF).
+  2: exfalso; lia.
+  3: apply (IH c1 rc c' H1 S1); [lia|exact E].
+  all: assert (N1 : c_in_tx c1 <> None) by (apply (RE_state_intx _ _ _ H1); rewrite S1; discriminate).
+  all: destruct (RE_consolidate _ _ H1 N1) as (H2 & S2 & _); rewrite S1 in S2.
+  all: destruct (req_consolidate_data g c1) as [[rc2 c2] data]; cbn [fst snd] in *.
+  all: destruct rc2; try (injection E as <- <-; apply RPost_of_RE; [exact H2|nb]).
+  all: assert (N2 : c_in_tx c2 <> None) by (apply (RE_state_intx _ _ _ H2); rewrite S2; discriminate).
+  all: destruct (RE_in_tx_some _ _ _ H2 N2) as (i & Ei & L).
+  all: match type of H2 with RE _ _ ?x => match type of E with context [rq_tx_upd ?f x] =>
+         pose proof (rq_tx_upd_fr' x f i Ei L ltac:(tx_le_tac)) as R; set (c3 := rq_tx_upd f x) in * end end.
+  all: assert (H3 : RE false os c3) by (eapply RE_fr; eassumption).
+  all: assert (S3 : c_in_state c3 = REQ_BODY_CHUNKED_LENGTH) by (rewrite (frR_in_state _ _ _ R); exact S2).
+  all: assert (E3 : c_in_tx c3 = Some i) by (rewrite (frR_in_tx _ _ _ R); exact Ei).
+  all: assert (L3 : live c3 i) by (eapply frR_live; eassumption).
+  all: destruct (parse_chunked_length (htp_chomp data)) as [v junk].
+  all: set (c4 := req_clear_buffer (c3 <| c_in_chunked_length := v |>)) in *.
+  all: assert (G4 : gfr c3 c4) by (subst c4; gfr_eq).
+  all: assert (F4 : c_fault c4 = false) by exact (re_fault _ _ _ H3).
+  all: assert (Na : ~ armed (c_in c3)) by (apply (RE_not_armed _ _ _ H3); rewrite S3; discriminate).
+  all: assert (Hu : txp c3 (c_in_tx c3) (fun t => t_parsed_uri t <> None)) by (apply (RE_uri _ _ _ H3); rewrite S3; exact I).
+  all: assert (N3 : c_in_tx c3 <> None) by congruence.
+  all: destruct (0 <? v).
+  1,3: injection E as <- <-; (apply RPost_of_RE; [|nb]);
+       eapply (RE_gfr_state os c3 _ REQ_BODY_CHUNKED_DATA H3); try (intros; assumption || contradiction); try exact F4; subst c4; gfr_eq.
+  all: destruct (v =? 0); injection E as <- <-.
+  2,4: apply RPost_bad; [exact F4|notok].
+  all: match goal with |- context [rq_tx_upd ?f (_ <| c_in_state := REQ_HEADERS |>)] =>
+         destruct (rq_upd_state_ok c4 i f REQ_HEADERS E3 L3 ltac:(tx_le_tac)) as [F5 G5] end.
+  all: (apply RPost_of_RE; [|nb]); eapply (RE_gfr_state os c3 _ REQ_HEADERS H3); try (intros; assumption || contradiction); try tauto.
+  all: try (rewrite F5; exact F4).
+  all: eapply gfr_trans; [apply gfr_set_in_state; exact G4|exact G5].
+Qed.
+Lemma REQ_BODY_CHUNKED_LENGTH_safe os c rc c' :
+  RE false os c -> c_in_state c = REQ_BODY_CHUNKED_LENGTH -> REQ_BODY_CHUNKED_LENGTH_fn g c = (rc, c') -> RPost false os rc c'.
+Proof. intros H Es E. unfold REQ_BODY_CHUNKED_LENGTH_fn in E. eapply REQ_BODY_CHUNKED_LENGTH_loop_safe; [exact H|exact Es| |exact E]. unfold rq_len, rq_rd. lia. Qed.
+
+(* the common part of REQ_BODY_IDENTITY / REQ_BODY_CHUNKED_DATA *)
+Lemma rq_consume_body_safe gap os c n rc c' :
+  RE gap os c -> (k_data (c_in c) = None -> k_read (c_in c) = O) -> (n <= rq_len c - rq_rd c)%nat -> c_in_tx c <> None ->
+  rq_consume_body cb n c = (rc, c') -> c_fault c' = false /\ gfr c c'.
+Proof.
+  intros H Dn Hn N E. pose proof (re_fault _ _ _ H) as F. destruct (RE_in_tx_some _ _ _ H N) as (i & Ei & L).
+  destruct (re_pre _ _ _ H) as [(W1 & W2 & W3) _]. unfold rq_len, rq_rd, rq_cs in *.
+  unfold rq_consume_body in E.
+  assert (S1 : exists c1 data, (match k_data (c_in c) with
+                                | Some _ => let '(c0, d) := rq_slice c (k_read (c_in c)) (k_read (c_in c) + n) in (c0, Some d)
+                                | None => (if (k_read (c_in c) =? 0)%nat then c else rq_fault c, None)
+                                end) = (c1, data) /\ nf c c1).
+  { destruct (k_data (c_in c)) as [d|] eqn:Ed.
+    - pose proof (rq_slice_nf c (k_read (c_in c)) (k_read (c_in c) + n)) as Q. rewrite Ed in Q. specialize (Q ltac:(lia)).
+      destruct (rq_slice c (k_read (c_in c)) (k_read (c_in c) + n)) as [c0 d0]. exists c0, (Some d0). split; [reflexivity|exact Q].
+    - rewrite (Dn eq_refl). exists c, None. split; [reflexivity|apply nf_refl]. }
+  destruct S1 as (c1 & data & Eq & N1). rewrite Eq in E. clear Eq.
+  pose proof (nf_gfr _ _ N1) as G1. assert (F1 : c_fault c1 = false) by (rewrite (gfr_fault_nf _ _ N1); exact F).
+  assert (E1 : c_in_tx c1 = Some i) by (rewrite (gfr_in_tx _ _ G1); exact Ei).
+  assert (L1 : live c1 i) by (eapply gfr_live; eassumption).
+  unfold rq_with_tx in E. rewrite E1 in E.
+  pose proof (tx_req_process_body_data_ex_fr cb cb_nodestroy i data n c1 L1 ltac:(rewrite E1; exact L1)) as R2.
+  destruct (tx_req_process_body_data_ex cb i data n c1) as [rc2 c2]. cbn [snd] in R2.
+  assert (F2 : c_fault c2 = false) by (rewrite (frR_fault _ _ _ R2); exact F1).
+  pose proof (gfr_trans _ _ _ G1 (fr_gfr _ _ R2)) as G2.
+  destruct rc2; try (injection E as <- <-; split; [exact F2|exact G2]).
+  injection E as <- <-.
+  set (c3 := rq_set_in _ c2).
+  assert (N3 : nf c2 c3) by (split; reflexivity).
+  pose proof (nf_gfr _ _ N3) as G3. assert (F3 : c_fault c3 = false) by (rewrite (gfr_fault_nf _ _ N3); exact F2).
+  assert (E3 : c_in_tx c3 = Some i) by (rewrite (gfr_in_tx _ _ G3), (frR_in_tx _ _ _ R2); exact E1).
+  assert (L3 : live c3 i) by (eapply gfr_live; [exact G3|eapply frR_live; eassumption]).
+  match goal with |- context [rq_tx_upd ?f c3] => pose proof (rq_tx_upd_fr' c3 f i E3 L3 ltac:(tx_le_tac)) as R4 end.
+  split; [rewrite (frR_fault _ _ _ R4); exact F3|].
+  eapply gfr_trans; [exact G2|]. eapply gfr_trans; [exact G3|apply fr_gfr; exact R4].
+Qed.
+
+Lemma RE_dnull gap os c : RE gap os c -> (gap = true -> k_read (c_in c) = O) -> k_data (c_in c) = None -> k_read (c_in c) = O.
+Proof.
+  intros H Hg Ed. destruct gap; [apply Hg; reflexivity|].
+  pose proof (re_readable _ _ _ H eq_refl Ed) as Q. destruct (re_pre _ _ _ H) as [(W1 & _) _]. unfold rq_len, rq_rd in *. lia.
+Qed.
+
+(* htp_connp_REQ_BODY_IDENTITY (also runs during gaps) *)
+Lemma REQ_BODY_IDENTITY_safe gap os c rc c' :
+  RI gap os c -> c_in_state c = REQ_BODY_IDENTITY -> REQ_BODY_IDENTITY_fn cb c = (rc, c') -> RPost gap os rc c'.
+Proof.
+  intros [H Gh] Es E.
+  pose proof (REQ_BODY_IDENTITY_fn_step cb c rc c' (re_pre _ _ _ H) Es E) as St.
+  assert (N : c_in_tx c <> None) by (apply (RE_state_intx _ _ _ H); rewrite Es; discriminate).
+  assert (Na : ~ armed (c_in c)) by (apply (RE_not_armed _ _ _ H); rewrite Es; discriminate).
+  assert (Dn : k_data (c_in c) = None -> k_read (c_in c) = O) by (apply (RE_dnull _ _ _ H); intros G; exact (Gh G (or_introl Es))).
+  unfold REQ_BODY_IDENTITY_fn in E.
+  destruct (rq_bytes_to_consume_spec c (c_in_body_data_left c) (re_pre _ _ _ H)) as (B1 & _).
+  destruct (_ =? 0)%nat.
+  { injection E as <- <-. split; [exact (re_fault _ _ _ H)|split; [intros _; exact H|split; intros Q; discriminate]]. }
+  destruct (rq_consume_body cb (rq_bytes_to_consume c (c_in_body_data_left c)) c) as [rc1 c1] eqn:Ec.
+  destruct (rq_consume_body_safe gap os c _ rc1 c1 H Dn B1 N Ec) as [F1 G1].
+  destruct St as (T1 & T2 & T3 & T4 & T5).
+  assert (Rd' : gap = false -> rq_readable c').
+  { intros Q. pose proof (re_readable _ _ _ H Q) as Rd. unfold rq_readable in *. rewrite T1, T2. exact Rd. }
+  assert (Fin : forall c2, gfr c1 c2 -> c_fault c2 = false -> c' = c2 -> rc <> ST_OK -> RPost gap os rc c').
+  { intros c2 G2 F2 -> Hrc. pose proof (gfr_trans _ _ _ G1 G2) as G.
+    assert (R : RE gap os c2).
+    { apply (RE_mk_same gap os c c2 H G F2 T4 Rd'). apply gap_ok_not_armed. eapply gfr_not_armed; eassumption. }
+    split; [exact F2|split; [intros _; exact R|split; [intros Q; contradiction|intros _; rewrite (gfr_in_tx _ _ G); exact N]]]. }
+  destruct rc1; try (injection E as <- <-; apply (Fin c1 (gfr_refl c1) F1 eq_refl); discriminate).
+  set (c2 := c1 <| c_in_body_data_left ::= _ |>) in *.
+  assert (G2 : gfr c1 c2) by (subst c2; gfr_eq).
+  destruct (c_in_body_data_left c2 =? 0); injection E as <- <-.
+  - assert (G3 : gfr (c <| c_in_state := REQ_FINALIZE |>) (c2 <| c_in_state := REQ_FINALIZE |>)).
+    { apply gfr_set_in_state. eapply gfr_trans; eassumption. }
+    assert (R : RE gap os (c2 <| c_in_state := REQ_FINALIZE |>)).
+    { apply (RE_mk gap os c _ REQ_FINALIZE H G3 F1 T4 Rd').
+      - apply gap_ok_not_armed. eapply gfr_not_armed; [exact G3|exact Na].
+      - intros U. contradiction.
+      - intros U. contradiction.
+      - intros _ _. exact N. }
+    split; [exact F1|split; [intros _; exact R|split; [intros _ Q [S2|S2]; discriminate S2|intros Q; discriminate]]].
+  - apply (Fin c2 G2 F1 eq_refl). discriminate.
+Qed.
+
+(* htp_connp_REQ_BODY_CHUNKED_DATA *)
+Lemma REQ_BODY_CHUNKED_DATA_safe os c rc c' :
+  RE false os c -> c_in_state c = REQ_BODY_CHUNKED_DATA -> REQ_BODY_CHUNKED_DATA_fn cb c = (rc, c') -> RPost false os rc c'.
+Proof.
+  intros H Es E.
+  pose proof (REQ_BODY_CHUNKED_DATA_fn_step cb c rc c' (re_pre _ _ _ H) Es E) as St.
+  pose proof (CW_step _ _ _ St (RE_CW _ _ H)) as W'.
+  assert (N : c_in_tx c <> None) by (apply (RE_state_intx _ _ _ H); rewrite Es; discriminate).
+  assert (Na : ~ armed (c_in c)) by (apply (RE_not_armed _ _ _ H); rewrite Es; discriminate).
+  assert (Hu : txp c (c_in_tx c) (fun t => t_parsed_uri t <> None)) by (apply (RE_uri _ _ _ H); rewrite Es; exact I).
+  assert (Dn : k_data (c_in c) = None -> k_read (c_in c) = O) by (apply (RE_dnull _ _ _ H); discriminate).
+  unfold REQ_BODY_CHUNKED_DATA_fn in E.
+  destruct (rq_bytes_to_consume_spec c (c_in_chunked_length c) (re_pre _ _ _ H)) as (B1 & _).
+  destruct (_ =? 0)%nat; [injection E as <- <-; apply RPost_of_RE; [exact H|nb]|].
+  destruct (rq_consume_body cb (rq_bytes_to_consume c (c_in_chunked_length c)) c) as [rc1 c1] eqn:Ec.
+  destruct (rq_consume_body_safe false os c _ rc1 c1 H Dn B1 N Ec) as [F1 G1].
+  assert (Fin : forall c2, gfr c1 c2 -> c_fault c2 = false -> c' = c2 -> RPost false os rc c').
+  { intros c2 G2 F2 ->. apply RPost_of_RE; [|intros _; rewrite (proj1 G2), (proj1 G1), Es; split; discriminate].
+    eapply RE_gfr; [exact H|eapply gfr_trans; eassumption|exact F2|exact W']. }
+  destruct rc1; try (injection E as <- <-; apply (Fin c1 (gfr_refl c1) F1 eq_refl)).
+  set (c2 := c1 <| c_in_chunked_length ::= _ |>) in *.
+  assert (G2 : gfr c1 c2) by (subst c2; gfr_eq).
+  destruct (c_in_chunked_length c2 =? 0); injection E as <- <-.
+  - (apply RPost_of_RE; [|nb]). eapply (RE_gfr_state os c _ REQ_BODY_CHUNKED_DATA_END H); try (intros; assumption || contradiction); try exact F1.
+    apply gfr_set_in_state. eapply gfr_trans; eassumption.
+  - apply (Fin c2 G2 F1 eq_refl).
+Qed.
+End States2.
+
+(* RE_mk with the receiver condition on the final state *)
+Lemma RE_mk2 gap os c c' s :
+  RE gap os c -> gfr (c <| c_in_state := s |>) c' -> c_fault c' = false -> rq_pre c' -> (gap = false -> rq_readable c') ->
+  gap_ok gap c' ->
+  (armed (c_in c') -> s = REQ_HEADERS \/ s = REQ_FINALIZE) ->
+  (uri_state s -> txp c' (c_in_tx c') (fun t => t_parsed_uri t <> None)) ->
+  (s <> REQ_IDLE -> s <> REQ_IGNORE_DATA_AFTER_HTTP_0_9 -> c_in_tx c <> None) ->
+  RE gap os c'.
+Proof.
+  intros [A1 A2 A3 [[B1 B2 B3 B4] To] A5 A6 A7] G F P Rd Gk Ha Hu Hi. pose proof G as (G1 & G2 & G3 & G4 & G5 & G6 & G7).
+  unfold ptrs in G3. injection G3 as P1 P2. cbn in G1, G2, P1, P2, G7.
+  assert (X : txs_rel tx_le c c') by exact G6.
+  constructor; try assumption.
+  - split.
+    + constructor.
+      * rewrite P1. eapply txs_rel_olive; eassumption.
+      * rewrite P1. eapply txs_rel_txp; [exact X| |exact B2]. intros t t' [[E _] _]. exact E.
+      * intros U. assert (U0 : armed (c_in c)) by (unfold armed, hook_in in *; destruct G4 as [Q|Q]; cbn in Q; congruence).
+        rewrite P1, G1. split; [exact (proj1 (B3 U0))|exact (Ha U)].
+      * rewrite G1. exact Hu.
+    + eapply TIout_frame; [exact To|exact G2|exact P2|exact G5|]. eapply txs_rel_weaken; [|exact X]. intros t t' [_ E]. exact E.
+  - unfold intx_ok. rewrite G1, P1. exact Hi.
+  - rewrite G7. exact A7.
+Qed.
+
+(* a step that keeps the fault flag and the TI frame *)
+Definition ss (c c' : connp) : Prop := gfr c c' /\ c_fault c' = c_fault c.
+Lemma ss_refl c : ss c c. Proof. split; [apply gfr_refl|reflexivity]. Qed.
+Lemma ss_trans a b c : ss a b -> ss b c -> ss a c.
+Proof. intros [A1 A2] [B1 B2]. split; [eapply gfr_trans; eassumption|congruence]. Qed.
+Lemma nf_ss a b : nf a b -> ss a b.
+Proof. intros N. split; [apply nf_gfr; exact N|exact (proj1 N)]. Qed.
+Lemma fr_ss a b : fr a b -> ss a b.
+Proof. intros R. split; [apply fr_gfr; exact R|exact (frR_fault _ _ _ R)]. Qed.
+Lemma RE_ss os c c' : RE false os c -> ss c c' -> rq_moved c c' -> RE false os c' /\ c_in_state c' = c_in_state c.
+Proof.
+  intros H [G F] M. split; [|destruct M as (_ & S & _); exact S].
+  eapply RE_gfr; [exact H|exact G|rewrite F; exact (re_fault _ _ _ H)|eapply CW_moved; [exact M|exact (RE_CW _ _ H)]].
+Qed.
+Lemma ss_in_tx a b i : ss a b -> c_in_tx a = Some i -> live a i -> c_in_tx b = Some i /\ live b i.
+Proof. intros [G _] E L. split; [rewrite (gfr_in_tx _ _ G); exact E|eapply gfr_live; eassumption]. Qed.
+
+
+Section States3.
+Variable cb : cb_oracle.
+Variable g : cfg.
+Hypothesis cb_nodestroy : forall h n, cb h n <> CB_DESTROY_TX.
+
+Lemma rq_process_header_ss l c i : c_in_tx c = Some i -> live c i -> ss c (rq_process_header l c).
+Proof.
+  intros E L. apply fr_ss. unfold rq_process_header. apply (rq_tx_upd_fr' c _ i E L).
+  intros t. apply tx_le_of_prog3. apply prog3_process_request_header.
+Qed.
+Lemma rq_flush_header_ss c i : c_in_tx c = Some i -> live c i -> ss c (rq_flush_header c).
+Proof.
+  intros E L. unfold rq_flush_header. destruct (k_header (c_in c)) as [h|]; [|apply ss_refl].
+  eapply ss_trans; [apply (rq_process_header_ss h c i E L)|apply nf_ss; apply rq_set_header_nf].
+Qed.
+
+(* htp_tx_state_request_headers applied to in_tx in state REQ_HEADERS *)
+Lemma headers_end_safe os c rc c' :
+  RE false os c -> c_in_state c = REQ_HEADERS -> rq_with_tx (tx_state_request_headers cb) c = (rc, c') -> CW c' -> RPost false os rc c'.
+Proof.
+  intros H Es E W'.
+  assert (N : c_in_tx c <> None) by (apply (RE_state_intx _ _ _ H); rewrite Es; discriminate).
+  destruct (RE_in_tx_some _ _ _ H N) as (i & Ei & L).
+  assert (Hu : txp c (Some i) (fun t => t_parsed_uri t <> None)) by (rewrite <- Ei; apply (RE_uri _ _ _ H); rewrite Es; exact I).
+  unfold rq_with_tx in E. rewrite Ei in E.
+  destruct (request_headers_safe cb cb_nodestroy i c (re_fault _ _ _ H) L Hu (RE_sendok _ _ _ H)) as (F' & Hok & Hno).
+  rewrite E in *. cbn [fst snd] in *.
+  assert (KeepU : forall s, gfr (c <| c_in_state := s |>) c' -> txp c' (c_in_tx c') (fun t => t_parsed_uri t <> None)).
+  { intros s G. rewrite (gfr_in_tx _ _ G). change (c_in_tx (c <| c_in_state := s |>)) with (c_in_tx c). rewrite Ei.
+    destruct G as (_ & _ & _ & _ & _ & X & _). eapply txs_rel_txp; [exact X| |exact Hu]. intros a b [[_ Q] _]. exact Q. }
+  destruct rc.
+  2-7: (apply RPost_of_RE; [|intros _; rewrite (frR_in_state _ _ _ (Hno ltac:(discriminate))), Es; split; discriminate]); eapply RE_gfr; [exact H|apply fr_gfr; apply Hno; discriminate|exact F'|exact W'].
+  destruct (Hok eq_refl) as [Hh [R|R]]; (apply RPost_of_RE; [|nb]).
+  - apply (RE_mk2 false os c c' REQ_FINALIZE H (fr_gfr _ _ R) F' (proj1 W') (fun _ => proj2 W')).
+    + intros Q. discriminate.
+    + intros _. right. reflexivity.
+    + intros [].
+    + intros _ _. exact N.
+  - apply (RE_mk2 false os c c' REQ_CONNECT_CHECK H (fr_gfr _ _ R) F' (proj1 W') (fun _ => proj2 W')).
+    + intros Q. discriminate.
+    + intros U. exfalso. unfold armed, hook_in in *. congruence.
+    + intros _. apply (KeepU REQ_CONNECT_CHECK). apply fr_gfr. exact R.
+    + intros _ _. exact N.
+Qed.
+
+Definition REs (os : Z) (c c' : connp) : Prop := RE false os c' /\ c_in_state c' = c_in_state c.
+Lemma REs_trans os a b c : REs os a b -> REs os b c -> REs os a c.
+Proof. intros [A1 A2] [B1 B2]. split; [exact B1|congruence]. Qed.
+Lemma RE_in_some os c : RE false os c -> c_in_state c = REQ_HEADERS -> exists i, c_in_tx c = Some i /\ live c i.
+Proof. intros H Es. apply (RE_in_tx_some _ _ _ H). apply (RE_state_intx _ _ _ H); rewrite Es; discriminate. Qed.
+
+Lemma RE_flush os c : RE false os c -> c_in_state c = REQ_HEADERS -> REs os c (rq_flush_header c).
+Proof. intros H Es. destruct (RE_in_some _ _ H Es) as (i & Ei & L). apply (RE_ss os c _ H (rq_flush_header_ss c i Ei L) (rq_flush_header_moved c)). Qed.
+Lemma RE_process_header os l c : RE false os c -> c_in_state c = REQ_HEADERS -> REs os c (rq_process_header l c).
+Proof. intros H Es. destruct (RE_in_some _ _ H Es) as (i & Ei & L). apply (RE_ss os c _ H (rq_process_header_ss l c i Ei L) (rq_process_header_moved l c)). Qed.
+Lemma RE_set_header os h c : RE false os c -> REs os c (rq_set_in (fun k => k <| k_header := h |>) c).
+Proof. intros H. apply (RE_ss os c _ H (nf_ss _ _ (rq_set_header_nf c h)) (rq_set_header_moved c h)). Qed.
+Lemma RE_clear_buffer os c : RE false os c -> REs os c (req_clear_buffer c).
+Proof. intros H. apply (RE_ss os c _ H (nf_ss _ _ (req_clear_buffer_nf c)) (req_clear_buffer_moved c)). Qed.
+Lemma RE_peek' os c : RE false os c -> REs os c (rq_peek_next c).
+Proof. intros H. exact (RE_peek os c H). Qed.
+Lemma RE_tx_upd os f c : RE false os c -> c_in_state c = REQ_HEADERS -> (forall t, tx_le t (f t)) -> REs os c (rq_tx_upd f c).
+Proof.
+  intros H Es Hf. destruct (RE_in_some _ _ H Es) as (i & Ei & L).
+  apply (RE_ss os c _ H (fr_ss _ _ (rq_tx_upd_fr' c f i Ei L Hf)) (rq_tx_upd_moved f c)).
+Qed.
+
+(* one complete header line *)
+Lemma rq_header_line_safe os c ret c2 :
+  RE false os c -> c_in_state c = REQ_HEADERS -> rq_header_line cb g c = (ret, c2) ->
+  match ret with
+  | Some (rc, c') => RPost false os rc c'
+  | None => RE false os c2 /\ c_in_state c2 = REQ_HEADERS
+  end.
+Proof.
+  intros H Es E. pose proof (rq_header_line_step cb g c ret c2 (re_pre _ _ _ H) E) as St.
+  unfold rq_header_line in E.
+  assert (N : c_in_tx c <> None) by (apply (RE_state_intx _ _ _ H); rewrite Es; discriminate).
+  destruct (RE_consolidate g os c H N) as (H1 & S1 & _). rewrite Es in S1.
+  destruct (req_consolidate_data g c) as [[rc1 c1] data]. cbn [fst snd] in *.
+  destruct rc1; try (injection E as <- <-; apply RPost_of_RE; [exact H1|nb]).
+  destruct (htp_is_line_terminator (g_personality g) data false).
+  { destruct (RE_flush os c1 H1 S1) as [H2 S2]. rewrite S1 in S2.
+    destruct (RE_clear_buffer os _ H2) as [H3 S3]. rewrite S2 in S3.
+    injection E as <- <-. destruct (rq_with_tx (tx_state_request_headers cb) _) as [rc4 c4] eqn:E4.
+    apply (headers_end_safe os _ rc4 c4 H3 S3 E4). eapply CW_step; [exact St|exact (RE_CW _ _ H)]. }
+  injection E as <- <-.
+  assert (Fin : forall cx, REs os c1 cx -> RE false os (req_clear_buffer cx) /\ c_in_state (req_clear_buffer cx) = REQ_HEADERS).
+  { intros cx [Hx Sx]. destruct (RE_clear_buffer os cx Hx) as [Hy Sy]. split; [exact Hy|congruence]. }
+  destruct (htp_is_line_folded (htp_chomp data) =? 0).
+  - destruct (RE_flush os c1 H1 S1) as [H2 S2]. destruct (RE_peek' os _ H2) as [H3 S3].
+    assert (S3' : c_in_state (rq_peek_next (rq_flush_header c1)) = REQ_HEADERS) by congruence.
+    assert (R3 : REs os c1 (rq_peek_next (rq_flush_header c1))) by (split; [exact H3|congruence]).
+    destruct (k_next_byte (c_in (rq_peek_next (rq_flush_header c1)))) as [b|].
+    + destruct (negb (htp_is_folding_char b)); apply Fin; (eapply REs_trans; [exact R3|]).
+      * apply RE_process_header; assumption.
+      * apply RE_set_header; assumption.
+    + apply Fin. eapply REs_trans; [exact R3|]. apply RE_set_header; assumption.
+  - destruct (k_header (c_in c1)) as [h|].
+    + destruct (_ <? c_HTP_MAX_HEADER_FOLDED); apply Fin; [apply RE_set_header; exact H1|split; [exact H1|reflexivity]].
+    + apply Fin. match goal with |- context [rq_tx_upd ?f c1] => pose proof (RE_tx_upd os f c1 H1 S1 ltac:(tx_le_tac)) as R4 end.
+      eapply REs_trans; [exact R4|]. apply RE_set_header. exact (proj1 R4).
+Qed.
+
+(* htp_connp_REQ_HEADERS *)
+Lemma REQ_HEADERS_loop_safe os n : forall c rc c',
+  RE false os c -> c_in_state c = REQ_HEADERS -> (rq_len c - rq_rd c <= n)%nat -> REQ_HEADERS_loop cb g n c = (rc, c') -> RPost false os rc c'.
+Proof.
+  induction n as [|n IH]; intros c rc c' H Es Hn E.
+  all: pose proof (CW_step _ _ _ (REQ_HEADERS_loop_step cb g _ c rc c' (re_pre _ _ _ H) Hn E) (RE_CW _ _ H)) as W'.
+  all: cbn [REQ_HEADERS_loop] in E.
+  all: destruct (c_in_status c =? c_HTP_STREAM_CLOSED).
+  1,3: destruct (RE_flush os c H Es) as [H2 S2]; rewrite Es in S2;
+       destruct (RE_clear_buffer os _ H2) as [H3 S3]; rewrite S2 in S3;
+       match type of E with context [rq_tx_upd ?f ?x] => destruct (RE_tx_upd os f x H3 S3 ltac:(tx_le_tac)) as [H4 S4] end;
+       rewrite S3 in S4; exact (headers_end_safe os _ rc c' H4 S4 E W').
+  all: destruct (rq_copy_byte c) as [c1|] eqn:Ec; [|injection E as <- <-; apply RPost_of_RE; [exact H|nb]].
+  all: destruct (RE_copy _ _ _ H Ec) as (H1 & S1 & _ & L1 & R1 & Lt1); rewrite Es in S1.
+  all: destruct (rq_next_is c1 LF).
+  1,3: destruct (rq_header_line cb g c1) as [ret c2] eqn:El;
+       pose proof (rq_header_line_safe os c1 ret c2 H1 S1 El) as Q;
+       pose proof (rq_header_line_step cb g c1 ret c2 (re_pre _ _ _ H1) El) as M;
+       destruct ret as [[rc3 c3]|]; [injection E as <- <-; exact Q|].
+  all: try (exfalso; lia).
+  - destruct Q as [H2 S2]. apply (IH c2 rc c' H2 S2); [|exact E].
+    destruct M as (P & _). unfold rq_pos, rq_len, rq_rd in *. injection P as P1 P2 _ _ _. lia.
+  - apply (IH c1 rc c' H1 S1); [lia|exact E].
+Qed.
+Lemma REQ_HEADERS_safe os c rc c' :
+  RE false os c -> c_in_state c = REQ_HEADERS -> REQ_HEADERS_fn cb g c = (rc, c') -> RPost false os rc c'.
+Proof. intros H Es E. unfold REQ_HEADERS_fn in E. eapply REQ_HEADERS_loop_safe; [exact H|exact Es| |exact E]. unfold rq_len, rq_rd. lia. Qed.
+End States3.
+
+Lemma hookrc_not_ok rc : rq_hookrc rc -> okrc rc -> rc = ST_OK.
+Proof. unfold rq_hookrc, okrc. intros [->|[->| ->]] [Q|[Q|[Q|Q]]]; congruence. Qed.
+
+Section States4.
+Variable cb : cb_oracle.
+Variable g : cfg.
+Hypothesis cb_nodestroy : forall h n, cb h n <> CB_DESTROY_TX.
+
+(* htp_tx_state_request_complete applied to in_tx (REQ_FINALIZE, REQ_CONNECT_PROBE_DATA, gaps) *)
+Lemma req_complete_safe gap os c rc c' :
+  RE gap os c -> c_in_tx c <> None -> rq_request_complete cb g c = (rc, c') -> RPost gap os rc c'.
+Proof.
+  intros H N E. destruct (rq_request_complete_step cb g c rc c' (re_pre _ _ _ H) E) as [St Hrc].
+  destruct (RE_in_tx_some _ _ _ H N) as (i & Ei & L).
+  unfold rq_request_complete, rq_with_tx in E. rewrite Ei in E.
+  pose proof H as [A1 A2 A3 [Ti To] A5 A6 A7].
+  pose proof (ti_in_prog c Ti) as Pq.
+  destruct (request_complete_safe cb g cb_nodestroy i c A1 L Ei (RE_sendok _ _ _ H) To Pq) as (F' & To' & Fx & Po & Hok).
+  rewrite E in *. cbn [fst snd] in *.
+  split; [exact F'|]. split.
+  - intros Ok. pose proof (hookrc_not_ok _ Hrc Ok) as ->. destruct (Hok eq_refl) as (I1 & I2 & I3).
+    destruct St as (T1 & T2 & T3 & T4 & T5). destruct Fx as (Sk & _).
+    constructor.
+    + exact F'.
+    + exact T4.
+    + intros Q. pose proof (A3 Q) as Rd. unfold rq_readable in *. rewrite T1, T2. exact Rd.
+    + split; [|exact To']. constructor; unfold armed, olive, txp; rewrite ?I1; try exact I.
+      * intros U. unfold hook_in in I2. congruence.
+      * intros _. exact I.
+    + intros Q1 Q2. destruct I3; contradiction.
+    + intros _ U. unfold armed, hook_in in *. congruence.
+    + apply skel_out_status in Sk. cbn in Sk. rewrite Sk. exact A7.
+  - split.
+    + intros -> _ Q. destruct (Hok eq_refl) as (_ & _ & [I3|I3]); destruct Q as [Q|Q]; rewrite I3 in Q; discriminate.
+    + intros ->. exfalso. destruct Hrc as [Q|[Q|Q]]; discriminate.
+Qed.
+
+(* ---- htp_connp_tx_create ---- *)
+Lemma tx_create_none c c1 : connp_tx_create g c = (None, c1) -> c_fault c1 = c_fault c.
+Proof.
+  unfold connp_tx_create. set (c0 := if (_ <? _)%nat then _ else c).
+  assert (E0 : c_fault c0 = c_fault c) by (subst c0; destruct (_ <? _)%nat; reflexivity).
+  destruct (_ && _); [|discriminate]. intros Q. injection Q as <-. exact E0.
+Qed.
+Lemma tx_create_fields c i c1 : connp_tx_create g c = (Some i, c1) ->
+  c_fault c1 = c_fault c /\ c_in_tx c1 = Some i /\ c_out_tx c1 = c_out_tx c /\ c_in_state c1 = c_in_state c /\
+  c_out_state c1 = c_out_state c /\ c_in c1 = c_in c /\ c_out c1 = c_out c /\ c_out_status c1 = c_out_status c /\ c_in_status c1 = c_in_status c.
+Proof.
+  unfold connp_tx_create. set (c0 := if (_ <? _)%nat then _ else c).
+  assert (E0 : c_fault c0 = c_fault c /\ c_out_tx c0 = c_out_tx c /\ c_in_state c0 = c_in_state c /\ c_out_state c0 = c_out_state c /\
+               c_in c0 = c_in c /\ c_out c0 = c_out c /\ c_out_status c0 = c_out_status c /\ c_in_status c0 = c_in_status c /\ c_txs_shifted c0 = c_txs_shifted c)
+    by (subst c0; destruct (_ <? _)%nat; repeat split; reflexivity).
+  destruct E0 as (E1 & E2 & E3 & E4 & E5 & E6 & E7 & E8 & E9).
+  destruct (_ && _); [discriminate|]. intros Q. injection Q as <- <-. cbn. rewrite E9. repeat split; assumption.
+Qed.
+Lemma tx_create_old_slot c i c1 j : connp_tx_create g c = (Some i, c1) -> live c j -> tx_slot c1 j = tx_slot c j.
+Proof.
+  intros E L. destruct (tx_create_slot g c i c1 j E) as [Ei Es]. rewrite Es.
+  destruct (live_range c j L) as [L1 L2]. replace (j =? i)%nat with false by (symmetry; apply Nat.eqb_neq; lia). reflexivity.
+Qed.
+Lemma tx_create_TIout c i c1 : connp_tx_create g c = (Some i, c1) -> TIout c -> TIout c1.
+Proof.
+  intros E [A1 A2 A3]. destruct (tx_create_fields c i c1 E) as (F1 & F2 & F3 & F4 & F5 & F6 & F7 & F8 & F9).
+  constructor; unfold armed, olive, txp, live in *; rewrite ?F3, ?F5, ?F7.
+  - destruct (c_out_tx c) as [o|]; [|exact I]. rewrite (tx_create_old_slot c i c1 o E A1). exact A1.
+  - intros U. destruct (A2 U) as [B1 B2]. split; [exact B1|]. destruct (c_out_tx c) as [o|]; [|exact I].
+    rewrite (tx_create_old_slot c i c1 o E A1). exact B2.
+  - exact A3.
+Qed.
+
+(* htp_connp_REQ_IDLE *)
+Lemma REQ_IDLE_safe os c rc c' :
+  RE false os c -> c_in_state c = REQ_IDLE -> REQ_IDLE_fn cb g c = (rc, c') -> RPost false os rc c'.
+Proof.
+  intros H Es E. pose proof (RE_CW _ _ H) as W.
+  pose proof (CW_step _ _ _ (REQ_IDLE_fn_step cb g c rc c' (proj1 W) Es E) W) as W'.
+  pose proof H as [A1 A2 A3 [Ti To] A5 A6 A7].
+  assert (Na : ~ armed (c_in c)) by (apply (RE_not_armed _ _ _ H); rewrite Es; discriminate).
+  unfold REQ_IDLE_fn in E. destruct (rq_at_end c); [injection E as <- <-; apply RPost_of_RE; [exact H|nb]|].
+  destruct (connp_tx_create g c) as [[i|] c1] eqn:Ec.
+  2: { injection E as <- <-. apply RPost_bad; [cbn; rewrite (tx_create_none c c1 Ec); exact A1|notok]. }
+  destruct (tx_create_fields c i c1 Ec) as (F1 & F2 & F3 & F4 & F5 & F6 & F7 & F8 & F9).
+  destruct (tx_create_slot g c i c1 i Ec) as [Ei Esl]. rewrite Nat.eqb_refl in Esl.
+  assert (L1 : live c1 i) by (unfold live; congruence).
+  assert (Fc1 : c_fault c1 = false) by congruence.
+  destruct (request_start_safe cb cb_nodestroy i c1 Fc1 L1 F2) as (F' & Hok & Hno).
+  rewrite E in *. cbn [fst snd] in *.
+  assert (Hrc : rq_hookrc rc).
+  { pose proof (tx_state_request_start_spec cb i c1) as Sp. cbv zeta in Sp. rewrite E in Sp. exact (proj1 (proj2 Sp)). }
+  split; [exact F'|]. split; [|split; [intros _ Q; discriminate|intros ->; exfalso; destruct Hrc as [Q|[Q|Q]]; discriminate]].
+  intros Ok.
+  pose proof (hookrc_not_ok _ Hrc Ok) as ->. specialize (Hok eq_refl). pose proof (fr_gfr _ _ Hok) as G.
+  destruct G as (G1 & G2 & G3 & G4 & G5 & G6 & G7). unfold ptrs in G3. injection G3 as P1 P2. cbn in G1, G2, P1, P2, G7.
+  assert (Hk : hook_in c1 = hook_in c) by (unfold hook_in; rewrite F6; reflexivity).
+  constructor.
+  - exact F'.
+  - exact (proj1 W').
+  - intros _. exact (proj2 W').
+  - split.
+    + constructor.
+      * rewrite P1, F2. eapply txs_rel_live; [exact G6|exact L1].
+      * rewrite P1, F2. unfold txp. pose proof (G6 i) as Q. change (tx_slot (c1 <| c_in_state := REQ_LINE |>) i) with (tx_slot c1 i) in Q. rewrite Esl in Q.
+        destruct (tx_slot c' i) as [t'|]; [|exact I]. destruct Q as [[Q _] _]. apply Q. cbn. vm_compute. discriminate.
+      * intros U. exfalso. apply Na. unfold armed, hook_in in *. destruct G4 as [Q|Q]; cbn in Q; [|congruence]. rewrite Q in U. rewrite <- F6. exact U.
+      * rewrite G1. intros [].
+    + eapply TIout_frame; [exact (tx_create_TIout c i c1 Ec To)|exact G2|exact P2|exact G5|]. eapply txs_rel_weaken; [|exact G6]. intros t t' [_ Q]. exact Q.
+  - unfold intx_ok. rewrite P1, F2. intros _ _. discriminate.
+  - intros Q. discriminate.
+  - rewrite G7, F8. exact A7.
+Qed.
+
+(* for (;;) { IN_PEEK_NEXT; if (stop) break; IN_COPY_BYTE_OR_RETURN; } *)
+Lemma rq_peek_copy_until_safe os stop n : forall c b c',
+  RE false os c -> (rq_len c - rq_rd c <= n)%nat -> rq_peek_copy_until stop n c = (b, c') ->
+  RE false os c' /\ c_in_state c' = c_in_state c.
+Proof.
+  induction n as [|n IH]; intros c b c' H Hn E; cbn [rq_peek_copy_until] in E.
+  all: destruct (RE_peek _ _ H) as [H0 S0]; destruct (peek_pos c) as [PL PR].
+  all: destruct (match k_next_byte (c_in (rq_peek_next c)) with Some b0 => stop b0 | None => false end);
+       [injection E as <- <-; split; assumption|].
+  all: destruct (rq_copy_byte (rq_peek_next c)) as [c2|] eqn:Ec; [|injection E as <- <-; split; assumption].
+  all: destruct (RE_copy _ _ _ H0 Ec) as (H2 & S2 & _ & L2 & R2 & Lt2).
+  - exfalso. lia.
+  - assert (Hn2 : (rq_len c2 - rq_rd c2 <= n)%nat) by lia.
+    destruct (IH c2 b c' H2 Hn2 E) as [H3 S3]. split; [exact H3|congruence].
+Qed.
+
+Lemma RE_set_tunnel os c : RE false os c ->
+  RE false os (c <| c_in_status := c_HTP_STREAM_TUNNEL |> <| c_out_status := c_HTP_STREAM_TUNNEL |>).
+Proof.
+  intros [A1 A2 A3 [[B1 B2 B3 B4] [C1 C2 C3]] A5 A6 A7]. constructor; try assumption.
+  - split; constructor; assumption.
+  - right. reflexivity.
+Qed.
+
+(* htp_connp_REQ_CONNECT_PROBE_DATA *)
+Lemma REQ_CONNECT_PROBE_DATA_safe os c rc c' :
+  RE false os c -> c_in_state c = REQ_CONNECT_PROBE_DATA -> REQ_CONNECT_PROBE_DATA_fn cb g c = (rc, c') -> RPost false os rc c'.
+Proof.
+  intros H Es E. unfold REQ_CONNECT_PROBE_DATA_fn in E.
+  destruct (rq_peek_copy_until _ _ c) as [b c1] eqn:Ep.
+  assert (Hn : (rq_len c - rq_rd c <= k_len (c_in c) - k_read (c_in c))%nat) by (unfold rq_len, rq_rd; lia).
+  destruct (rq_peek_copy_until_safe os _ _ c b c1 H Hn Ep) as [H1 S1]. rewrite Es in S1.
+  destruct b; [|injection E as <- <-; apply RPost_of_RE; [exact H1|nb]].
+  assert (N1 : c_in_tx c1 <> None) by (apply (RE_state_intx _ _ _ H1); rewrite S1; discriminate).
+  destruct (RE_consolidate g os c1 H1 N1) as (H2 & S2 & _). rewrite S1 in S2.
+  destruct (req_consolidate_data g c1) as [[rc2 c2] data]. cbn [fst snd] in *.
+  destruct rc2; try (injection E as <- <-; apply RPost_of_RE; [exact H2|nb]).
+  destruct (rq_probe_method data) as [mstart pos].
+  destruct (negb _).
+  - apply (req_complete_safe false os c2 rc c' H2); [|exact E]. apply (RE_state_intx _ _ _ H2); rewrite S2; discriminate.
+  - injection E as <- <-. apply RPost_of_RE; [apply RE_set_tunnel; exact H2|nb].
+Qed.
+
+Lemma rq_finalize_scan_safe os c : RE false os c ->
+  match rq_finalize_scan c with
+  | RF_complete c1 | RF_buffer c1 | RF_probe c1 => RE false os c1 /\ c_in_state c1 = c_in_state c
+  end.
+Proof.
+  intros H. unfold rq_finalize_scan. destruct (c_in_status c =? c_HTP_STREAM_CLOSED); [split; [exact H|reflexivity]|].
+  destruct (RE_peek _ _ H) as [H0 S0].
+  destruct (k_next_byte (c_in (rq_peek_next c))) as [b|]; [|split; assumption].
+  destruct (negb (b =? LF)%N || _); [|split; assumption].
+  destruct (rq_peek_copy_until _ _ (rq_peek_next c)) as [b1 c1] eqn:Ep.
+  assert (Hn : (rq_len (rq_peek_next c) - rq_rd (rq_peek_next c) <= k_len (c_in (rq_peek_next c)) - k_read (c_in (rq_peek_next c)))%nat) by (unfold rq_len, rq_rd; lia).
+  destruct (rq_peek_copy_until_safe os _ _ _ b1 c1 H0 Hn Ep) as [H1 S1].
+  destruct b1; split; congruence.
+Qed.
+
+Lemma RE_set_left os c v : RE false os c -> c_in_state c = REQ_FINALIZE -> RE false os (c <| c_in_body_data_left := v |>).
+Proof.
+  intros H Es. pose proof H as [A1 A2 A3 [[B1 B2 B3 B4] [C1 C2 C3]] A5 A6 A7]. constructor; try assumption.
+  - destruct A2 as [Wf _]. split; [exact Wf|]. unfold rq_inv. cbn. rewrite Es. exact I.
+  - split; constructor; assumption.
+Qed.
+
+(* htp_tx_req_process_body_data_ex applied to in_tx *)
+Lemma RE_process_body os d n c rc c' : RE false os c -> c_in_tx c <> None ->
+  rq_with_tx (fun i => tx_req_process_body_data_ex cb i d n) c = (rc, c') -> RE false os c' /\ c_in_state c' = c_in_state c.
+Proof.
+  intros H N E. destruct (RE_in_tx_some _ _ _ H N) as (i & Ei & L). unfold rq_with_tx in E. rewrite Ei in E.
+  pose proof (tx_req_process_body_data_ex_fr cb cb_nodestroy i d n c L ltac:(rewrite Ei; exact L)) as R. rewrite E in R. cbn [snd] in R.
+  split; [eapply RE_fr; eassumption|apply (frR_in_state _ _ _ R)].
+Qed.
+
+(* htp_connp_REQ_FINALIZE *)
+Lemma REQ_FINALIZE_safe os c rc c' :
+  RE false os c -> c_in_state c = REQ_FINALIZE -> REQ_FINALIZE_fn cb g c = (rc, c') -> RPost false os rc c'.
+Proof.
+  intros H Es E. unfold REQ_FINALIZE_fn in E.
+  pose proof (rq_finalize_scan_safe os c H) as Sc.
+  assert (NI : forall cx, RE false os cx -> c_in_state cx = REQ_FINALIZE -> c_in_tx cx <> None).
+  { intros cx Hx Sx. apply (RE_state_intx _ _ _ Hx); rewrite Sx; discriminate. }
+  destruct (rq_finalize_scan c) as [c1|c1|c1]; destruct Sc as [H1 S1]; rewrite Es in S1.
+  - apply (req_complete_safe false os c1 rc c' H1 (NI _ H1 S1) E).
+  - injection E as <- <-. apply RPost_of_RE; [exact H1|nb].
+  - destruct (RE_consolidate g os c1 H1 (NI _ H1 S1)) as (H2 & S2 & _). rewrite S1 in S2.
+    destruct (req_consolidate_data g c1) as [[rc2 c2] data]. cbn [fst snd] in *.
+    destruct rc2; try (injection E as <- <-; apply RPost_of_RE; [exact H2|nb]).
+    destruct data as [|x data]; [apply (req_complete_safe false os c2 rc c' H2 (NI _ H2 S2) E)|].
+    destruct (rq_probe_method (x :: data)) as [mstart pos].
+    destruct (_ && negb _).
+    { apply (req_complete_safe false os _ rc c' (RE_set_left os c2 (-1) H2 S2)); [|exact E]. exact (NI _ H2 S2). }
+    set (c3 := if (mstart <? pos)%nat && (0 <? c_in_body_data_left c2) then c2 <| c_in_body_data_left := 1 |> else c2) in *.
+    assert (H3 : RE false os c3 /\ c_in_state c3 = REQ_FINALIZE).
+    { subst c3. destruct (_ && _); [split; [apply RE_set_left; assumption|exact S2]|split; assumption]. }
+    destruct H3 as [H3 S3].
+    assert (Tail : forall cx d, RE false os cx -> c_in_state cx = REQ_FINALIZE ->
+                   (let '(rc0, c0) := rq_with_tx (fun i => tx_req_process_body_data_ex cb i (Some d) 0) cx in (rc0, req_clear_buffer c0)) = (rc, c') ->
+                   RPost false os rc c').
+    { intros cx d Hx Sx Ex. destruct (rq_with_tx _ cx) as [rc0 c0] eqn:Ew.
+      destruct (RE_process_body os (Some d) 0 cx rc0 c0 Hx (NI _ Hx Sx) Ew) as [Hy Sy].
+      injection Ex as <- <-. apply RPost_of_RE; [exact (proj1 (RE_clear_buffer os c0 Hy))|].
+      intros _. change (c_in_state (req_clear_buffer c0)) with (c_in_state c0). rewrite Sy, Sx. split; discriminate. }
+    destruct (rq_next_is c3 LF); [|exact (Tail c3 _ H3 S3 E)].
+    destruct (rq_copy_byte c3) as [c4|] eqn:Ec; [|injection E as <- <-; apply RPost_of_RE; [exact H3|nb]].
+    destruct (RE_copy _ _ _ H3 Ec) as (H4 & S4 & _). rewrite S3 in S4.
+    destruct (RE_consolidate g os c4 H4 (NI _ H4 S4)) as (H5 & S5 & _). rewrite S4 in S5.
+    destruct (req_consolidate_data g c4) as [[rc5 c5] d2]. cbn [fst snd] in *.
+    destruct rc5; exact (Tail c5 _ H5 S5 E).
+Qed.
+End States4.
+
+(* ------------------------------------------------------------------------------------------------ *)
+(* 5. the loop of htp_connp_req_data *)
+
+Section Loop.
+Variable cb : cb_oracle.
+Variable g : cfg.
+Hypothesis cb_nodestroy : forall h n, cb h n <> CB_DESTROY_TX.
+
+(* connp->in_state(connp) *)
+Lemma rq_state_fn_safe gap os c rc c' :
+  RI gap os c ->
+  (gap = true -> c_in_state c = REQ_BODY_IDENTITY \/ c_in_state c = REQ_IGNORE_DATA_AFTER_HTTP_0_9) ->
+  rq_state_fn cb g (c_in_state c) c = (rc, c') -> RPost gap os rc c'.
+Proof.
+  intros [H Gh] Hg E.
+  assert (NG : forall s, c_in_state c = s -> s <> REQ_BODY_IDENTITY -> s <> REQ_IGNORE_DATA_AFTER_HTTP_0_9 -> gap = false).
+  { intros s Es N1 N2. destruct gap; [|reflexivity]. destruct (Hg eq_refl) as [Q|Q]; congruence. }
+  destruct (c_in_state c) eqn:Es; cbn [rq_state_fn] in E.
+  - rewrite (NG _ eq_refl ltac:(discriminate) ltac:(discriminate)) in *. exact (REQ_IDLE_safe cb g cb_nodestroy os c rc c' H Es E).
+  - rewrite (NG _ eq_refl ltac:(discriminate) ltac:(discriminate)) in *. exact (REQ_LINE_safe cb g cb_nodestroy os c rc c' H Es E).
+  - rewrite (NG _ eq_refl ltac:(discriminate) ltac:(discriminate)) in *. exact (REQ_PROTOCOL_safe os c rc c' H Es E).
+  - rewrite (NG _ eq_refl ltac:(discriminate) ltac:(discriminate)) in *. exact (REQ_HEADERS_safe cb g cb_nodestroy os c rc c' H Es E).
+  - rewrite (NG _ eq_refl ltac:(discriminate) ltac:(discriminate)) in *. exact (REQ_CONNECT_CHECK_safe os c rc c' H Es E).
+  - rewrite (NG _ eq_refl ltac:(discriminate) ltac:(discriminate)) in *. exact (REQ_CONNECT_WAIT_RESPONSE_safe os c rc c' H Es E).
+  - rewrite (NG _ eq_refl ltac:(discriminate) ltac:(discriminate)) in *. exact (REQ_CONNECT_PROBE_DATA_safe cb g cb_nodestroy os c rc c' H Es E).
+  - rewrite (NG _ eq_refl ltac:(discriminate) ltac:(discriminate)) in *. exact (REQ_BODY_DETERMINE_safe os c rc c' H Es E).
+  - exact (REQ_BODY_IDENTITY_safe cb cb_nodestroy gap os c rc c' (conj H Gh) Es E).
+  - rewrite (NG _ eq_refl ltac:(discriminate) ltac:(discriminate)) in *. exact (REQ_BODY_CHUNKED_LENGTH_safe g os c rc c' H Es E).
+  - rewrite (NG _ eq_refl ltac:(discriminate) ltac:(discriminate)) in *. exact (REQ_BODY_CHUNKED_DATA_safe cb cb_nodestroy os c rc c' H Es E).
+  - rewrite (NG _ eq_refl ltac:(discriminate) ltac:(discriminate)) in *. exact (REQ_BODY_CHUNKED_DATA_END_safe os c rc c' H Es E).
+  - rewrite (NG _ eq_refl ltac:(discriminate) ltac:(discriminate)) in *. exact (REQ_FINALIZE_safe cb g cb_nodestroy os c rc c' H Es E).
+  - exact (REQ_IGNORE_safe gap os c rc c' H Es E).
+Qed.
+
+Lemma RE_RI_same gap os c c' : RI gap os c -> RE gap os c' -> c_in_state c' = c_in_state c -> k_read (c_in c') = k_read (c_in c) -> RI gap os c'.
+Proof. intros [H Gh] H' S R. split; [exact H'|]. unfold gap_head in *. rewrite S, R. exact Gh. Qed.
+
+(* arming the receiver on entering REQ_HEADERS *)
+Lemma req_receiver_set_safe gap os h c rc c' :
+  RI gap os c -> c_in_state c = REQ_HEADERS -> req_receiver_set cb h c = (rc, c') ->
+  c_fault c' = false /\ RE gap os c' /\ c_in_state c' = c_in_state c /\ k_read (c_in c') = k_read (c_in c).
+Proof.
+  intros [H Gh] Es E. unfold req_receiver_set in E.
+  destruct (req_receiver_finalize_clear_safe cb cb_nodestroy c (re_fault _ _ _ H) (RE_sendok _ _ _ H)) as (F1 & R1 & Hh).
+  destruct (req_receiver_finalize_clear cb c) as [rc1 c1]. cbn [fst snd] in *. injection E as <- <-.
+  pose proof (RE_fr _ _ _ _ H R1) as H1. pose proof H1 as [A1 A2 A3 [[B1 B2 B3 B4] [C1 C2 C3]] A5 A6 A7].
+  pose proof (frR_core _ _ _ R1) as Co. destruct (rq_core_fields _ _ Co) as (E1 & E2 & E3 & E4 & E5).
+  assert (N1 : c_in_tx c1 <> None) by (apply A5; rewrite E5, Es; discriminate).
+  split; [exact A1|]. split; [|split; [exact E5|exact E3]].
+  constructor.
+  - exact A1.
+  - exact A2.
+  - exact A3.
+  - split; constructor; try assumption. intros _. split; [exact N1|left; rewrite <- Es; exact E5].
+  - exact A5.
+  - intros G _. cbn. rewrite E3. apply (Gh G). right. exact Es.
+  - exact A7.
+Qed.
+
+(* htp_req_handle_state_change *)
+Lemma req_handle_state_change_safe gap os c rc c' :
+  RI gap os c -> req_handle_state_change cb c = (rc, c') ->
+  c_fault c' = false /\ (rc = ST_OK -> RI gap os c').
+Proof.
+  intros HI E. pose proof HI as [H Gh]. unfold req_handle_state_change in E.
+  destruct (match c_in_state_previous c with Some s => req_state_eqb s (c_in_state c) | None => false end);
+    [injection E as <- <-; split; [exact (re_fault _ _ _ H)|intros _; exact HI]|].
+  assert (Prev : forall cx, RI gap os cx -> RI gap os (cx <| c_in_state_previous := Some (c_in_state cx) |>)).
+  { intros cx [[A1 A2 A3 [[B1 B2 B3 B4] [C1 C2 C3]] A5 A6 A7] G2]. split; [constructor; try assumption; split; constructor; assumption|exact G2]. }
+  destruct (req_state_eqb (c_in_state c) REQ_HEADERS) eqn:Eh.
+  2: { injection E as <- <-. split; [exact (re_fault _ _ _ H)|intros _; apply Prev; exact HI]. }
+  assert (Es : c_in_state c = REQ_HEADERS) by (destruct (c_in_state c); try discriminate; reflexivity).
+  assert (N : c_in_tx c <> None) by (apply (RE_state_intx _ _ _ H); rewrite Es; discriminate).
+  destruct (c_in_tx c) as [i|] eqn:Ei; [|congruence].
+  assert (Fin : forall h rcx cx, req_receiver_set cb h c = (rcx, cx) ->
+            match rcx with ST_OK => (ST_OK, cx <| c_in_state_previous := Some (c_in_state cx) |>) | _ => (rcx, cx) end = (rc, c') ->
+            c_fault c' = false /\ (rc = ST_OK -> RI gap os c')).
+  { intros h rcx cx Er Ex. destruct (req_receiver_set_safe gap os h c rcx cx HI Es Er) as (F2 & H2 & S2 & R2).
+    pose proof (RE_RI_same gap os c cx HI H2 S2 R2) as HI2.
+    destruct rcx; injection Ex as <- <-; (split; [exact F2|intros Q; try discriminate Q]). apply Prev. exact HI2. }
+  destruct (_ =? c_HTP_REQUEST_HEADERS).
+  { destruct (req_receiver_set cb H_REQUEST_HEADER_DATA c) as [rcx cx] eqn:Er. exact (Fin _ _ _ Er E). }
+  destruct (_ =? c_HTP_REQUEST_TRAILER).
+  { destruct (req_receiver_set cb H_REQUEST_TRAILER_DATA c) as [rcx cx] eqn:Er. exact (Fin _ _ _ Er E). }
+  injection E as <- <-. split; [exact (re_fault _ _ _ H)|intros _; apply Prev; exact HI].
+Qed.
+
+(* the request stream has not been stopped *)
+Definition in_sok (c : connp) : Prop := c_in_status c <> c_HTP_STREAM_STOP /\ c_in_status c <> c_HTP_STREAM_ERROR.
+(* what a finished htp_connp_req_data leaves *)
+Definition RFinal (gap : bool) (os : Z) (c' : connp) : Prop := c_fault c' = false /\ (in_sok c' -> RE gap os c').
+
+Lemma RE_set_in_status gap os c v : RE gap os c -> RE gap os (c <| c_in_status := v |>).
+Proof. intros [A1 A2 A3 [[B1 B2 B3 B4] [C1 C2 C3]] A5 A6 A7]. constructor; try assumption. split; constructor; assumption. Qed.
+
+Lemma req_buffer_nf' c : rq_wf c -> c_in_tx c <> None -> nf c (snd (req_buffer g c)).
+Proof.
+  intros W N. pose proof W as (W1 & W2 & W3). unfold rq_rd, rq_len, rq_cs in *. unfold req_buffer.
+  destruct (k_data (c_in c)) as [d|] eqn:Ed; [|apply nf_refl].
+  replace (k_read (c_in c) <? k_consume (c_in c))%nat with false by (symmetry; apply Nat.ltb_ge; exact W2).
+  destruct (_ =? 0)%nat; [apply nf_refl|]. destruct (c_in_tx c) eqn:Ei; [|congruence].
+  destruct (g_field_limit_hard g <? _)%nat; [apply nf_refl|].
+  pose proof (rq_slice_nf c (k_consume (c_in c)) (k_read (c_in c))) as Q. rewrite Ed in Q. specialize (Q ltac:(lia)). destruct Q as [N1 N2].
+  destruct (rq_slice c (k_consume (c_in c)) (k_read (c_in c))) as [c3 piece]. cbn [fst snd] in *.
+  split; [exact N1|]. rewrite <- N2. reflexivity.
+Qed.
+
+Lemma RE_nf gap os c c' : RE gap os c -> nf c c' -> rq_moved c c' -> RE gap os c'.
+Proof.
+  intros H N M. pose proof (nf_gfr _ _ N) as G.
+  apply (RE_mk_same gap os c c' H G).
+  - rewrite (proj1 N). exact (re_fault _ _ _ H).
+  - eapply rq_pre_moved; [exact M|exact (re_pre _ _ _ H)].
+  - intros Q. pose proof (re_readable _ _ _ H Q) as Rd. destruct M as (P & _). unfold rq_pos in P. injection P as P1 P2 P3 P4 P5.
+    unfold rq_readable, rq_len in *. rewrite P5, P1. exact Rd.
+  - pose proof (re_gap _ _ _ H) as Gk. unfold gap_ok, armed in *. intros Q U. destruct M as (P & _). unfold rq_pos in P. injection P as P1 P2 P3 P4 P5.
+    rewrite P2. apply (Gk Q). destruct N as [_ T]. unfold tiv, hook_in in T. injection T as T1 T2 T3 T4 T5 T6 T7 T8 T9. congruence.
+Qed.
+
+(* the exit of a pass *)
+Lemma rq_exit_safe gap os rc c c' code :
+  RPost gap os rc c -> rq_exit cb g rc c = (c', code) -> RFinal gap os c'.
+Proof.
+  intros (F & Hre & _ & Hb) E. unfold rq_exit in E.
+  assert (Bad : forall v cx, c_fault cx = false -> (v = c_HTP_STREAM_STOP \/ v = c_HTP_STREAM_ERROR) -> RFinal gap os (cx <| c_in_status := v |>)).
+  { intros v cx Fx Hv. split; [exact Fx|]. intros [Q1 Q2]. cbn in Q1, Q2. destruct Hv; contradiction. }
+  destruct rc.
+  - (* OK: not reached from rq_iter; status ERROR *) injection E as <- <-. apply Bad; [exact F|tauto].
+  - injection E as <- <-. apply Bad; [exact F|tauto].
+  - injection E as <- <-. apply Bad; [exact F|tauto].
+  - (* DATA *)
+    assert (H : RE gap os c) by (apply Hre; unfold okrc; tauto).
+    destruct (req_receiver_send_data_safe cb cb_nodestroy false c F (RE_sendok _ _ _ H)) as [F1 R1].
+    destruct (req_receiver_send_data cb false c) as [r1 c1]. cbn [snd] in *. injection E as <- <-.
+    split; [exact F1|intros _]. apply RE_set_in_status. eapply RE_fr; eassumption.
+  - (* DATA_OTHER *)
+    assert (H : RE gap os c) by (apply Hre; unfold okrc; tauto).
+    destruct (rq_at_end c); injection E as <- <-; (split; [exact F|intros _; apply RE_set_in_status; exact H]).
+  - injection E as <- <-. apply Bad; [exact F|tauto].
+  - (* DATA_BUFFER *)
+    assert (H : RE gap os c) by (apply Hre; unfold okrc; tauto).
+    destruct (req_receiver_send_data_safe cb cb_nodestroy false c F (RE_sendok _ _ _ H)) as [F1 R1].
+    destruct (req_receiver_send_data cb false c) as [r1 c1]. cbn [snd] in *.
+    pose proof (RE_fr _ _ _ _ H R1) as H1.
+    assert (N1 : c_in_tx c1 <> None) by (rewrite (frR_in_tx _ _ _ R1); apply Hb; reflexivity).
+    pose proof (req_buffer_nf' c1 (proj1 (re_pre _ _ _ H1)) N1) as N2. pose proof (req_buffer_moved g c1) as M2.
+    destruct (req_buffer g c1) as [brc c2]. cbn [snd] in *.
+    pose proof (RE_nf _ _ _ _ H1 N2 M2) as H2.
+    destruct brc; injection E as <- <-; try (apply Bad; [exact (re_fault _ _ _ H2)|tauto]).
+    split; [exact (re_fault _ _ _ H2)|intros _; apply RE_set_in_status; exact H2].
+Qed.
+
+(* one pass of the for(;;) body *)
+Lemma rq_iter_safe gap os c :
+  RI gap os c ->
+  match rq_iter cb g gap c with
+  | inr c1 => RI gap os c1
+  | inl (c', code) => RFinal gap os c'
+  end.
+Proof.
+  intros HI. pose proof HI as [H Gh]. unfold rq_iter.
+  set (dispatch := if gap then _ else _).
+  assert (D : match dispatch with Some (rc, c1) => RPost gap os rc c1 | None => True end).
+  { subst dispatch. destruct gap.
+    - destruct (req_state_eqb (c_in_state c) REQ_BODY_IDENTITY || req_state_eqb (c_in_state c) REQ_IGNORE_DATA_AFTER_HTTP_0_9) eqn:E.
+      + destruct (rq_state_fn cb g (c_in_state c) c) as [rc c1] eqn:E1. apply (rq_state_fn_safe true os c rc c1 HI); [|exact E1].
+        intros _. destruct (c_in_state c); try discriminate E; tauto.
+      + destruct (req_state_eqb (c_in_state c) REQ_FINALIZE) eqn:Ef; [|exact I].
+        destruct (rq_request_complete cb g c) as [rc c1] eqn:E1. apply (req_complete_safe cb g cb_nodestroy true os c rc c1 H); [|exact E1].
+        apply (RE_state_intx _ _ _ H); destruct (c_in_state c); try discriminate Ef; discriminate.
+    - destruct (rq_state_fn cb g (c_in_state c) c) as [rc c1] eqn:E1. apply (rq_state_fn_safe false os c rc c1 HI); [intros Q; discriminate|exact E1]. }
+  destruct dispatch as [[rc c1]|].
+  2: { split; [exact (re_fault _ _ _ H)|intros _; exact H]. }
+  destruct rc; try (destruct (rq_exit cb g _ c1) as [c' code] eqn:Ex; exact (rq_exit_safe gap os _ c1 c' code D Ex)).
+  destruct D as (F1 & Hre & Hgh & _). assert (H1 : RE gap os c1) by (apply Hre; unfold okrc; tauto). specialize (Hgh eq_refl).
+  destruct (c_in_status c1 =? c_HTP_STREAM_TUNNEL); [split; [exact F1|intros _; exact H1]|].
+  pose proof (req_handle_state_change_moved cb c1) as [_ Hrc].
+  destruct (req_handle_state_change cb c1) as [rc2 c2] eqn:E2. cbn [fst] in Hrc.
+  destruct (req_handle_state_change_safe gap os c1 rc2 c2 (conj H1 Hgh) E2) as [F2 Hok].
+  destruct rc2; try (destruct Hrc as [Q|[Q|Q]]; discriminate Q).
+  - exact (Hok eq_refl).
+  - cbn. split; [exact F2|]. intros [_ Q]. cbn in Q. contradiction.
+  - cbn. split; [exact F2|]. intros [Q _]. cbn in Q. contradiction.
+Qed.
+
+(* running out of fuel is the only other way to set the fault flag *)
+Fixpoint rq_loop_oof (fuel : nat) (gap : bool) (c : connp) : bool :=
+  match fuel with
+  | O => true
+  | S f => match rq_iter cb g gap c with inl _ => false | inr c1 => rq_loop_oof f gap c1 end
+  end.
+
+Lemma rq_loop_safe gap os fuel : forall c c' code,
+  RI gap os c -> rq_loop cb g fuel gap c = (c', code) -> rq_loop_oof fuel gap c = false -> RFinal gap os c'.
+Proof.
+  induction fuel as [|f IH]; intros c c' code HI E O; cbn [rq_loop rq_loop_oof] in *; [discriminate|].
+  pose proof (rq_iter_safe gap os c HI) as S. destruct (rq_iter cb g gap c) as [[c1 code1]|c1].
+  - injection E as <- <-. exact S.
+  - exact (IH c1 c' code S E O).
+Qed.
+
+(* ---- htp_connp_req_data ---- *)
+
+(* the invariant between two API calls: no fault so far, the transaction/receiver coupling of both directions, the
+   request body counters consistent with the request state (PReq.rq_inv) *)
+Record safe_inv (c : connp) : Prop := mk_safe_inv {
+  si_fault : c_fault c = false;
+  si_ti : TI c;
+  si_rq : rq_inv c
+}.
+
+(* did this call of htp_connp_req_data exhaust the fuel of the model's loop? (same guards as connp_req_data) *)
+Definition req_data_oof (data : option bytes) (len : nat) (c : connp) : bool :=
+  if c_in_status c =? c_HTP_STREAM_STOP then false
+  else if c_in_status c =? c_HTP_STREAM_ERROR then false
+  else if match c_in_tx c with None => negb (req_state_eqb (c_in_state c) REQ_IDLE) | Some _ => false end then false
+  else if (len =? 0)%nat && negb (c_in_status c =? c_HTP_STREAM_CLOSED) then false
+  else
+    let c := rq_set_in (fun k => k <| k_data := data |> <| k_len := len |> <| k_read := O |> <| k_consume := O |>
+                                   <| k_receiver := O |>) c in
+    let c := c <| c_in_chunk_count ::= S |> <| c_in_data_counter ::= Z.add (Z.of_nat len) |> in
+    if c_in_status c =? c_HTP_STREAM_TUNNEL then false
+    else
+      let c := if c_out_status c =? c_HTP_STREAM_DATA_OTHER then c <| c_out_status := c_HTP_STREAM_DATA |> else c in
+      rq_loop_oof (rq_fuel len) (match data with None => (0 <? len)%nat | Some _ => false end) c.
+
+(* out_status after a request call: unchanged, DATA_OTHER turned into DATA (the request side goes on), or TUNNEL *)
+Definition out_status_after_req (os os' : Z) : Prop :=
+  os' = os \/ (os = c_HTP_STREAM_DATA_OTHER /\ os' = c_HTP_STREAM_DATA) \/ os' = c_HTP_STREAM_TUNNEL.
+
+Lemma safe_inv_of_RE gap os c : RE gap os c -> safe_inv c.
+Proof. intros [A1 A2 A3 A4 A5 A6 A7]. constructor; [exact A1|exact A4|exact (proj2 A2)]. Qed.
+
+Theorem connp_req_data_safe data len c c' code :
+  safe_inv c -> (forall d, data = Some d -> (len <= length d)%nat) ->
+  connp_req_data cb g data len c = (c', code) ->
+  req_data_oof data len c = false ->
+  c_fault c' = false /\ (in_sok c' -> safe_inv c' /\ out_status_after_req (c_out_status c) (c_out_status c')).
+Proof.
+  intros [F T Ri] Hd E O. unfold connp_req_data in E. unfold req_data_oof in O.
+  assert (Id : forall cx, cx = c -> c_fault cx = false /\ (in_sok cx -> safe_inv cx /\ out_status_after_req (c_out_status c) (c_out_status cx))).
+  { intros cx ->. split; [exact F|intros _; split; [constructor; assumption|left; reflexivity]]. }
+  destruct (c_in_status c =? c_HTP_STREAM_STOP); [injection E as <- <-; apply Id; reflexivity|].
+  destruct (c_in_status c =? c_HTP_STREAM_ERROR); [injection E as <- <-; apply Id; reflexivity|].
+  destruct (match c_in_tx c with None => negb (req_state_eqb (c_in_state c) REQ_IDLE) | Some _ => false end) eqn:Eg.
+  { injection E as <- <-. split; [exact F|intros [_ Q]; cbn in Q; contradiction]. }
+  destruct ((len =? 0)%nat && negb (c_in_status c =? c_HTP_STREAM_CLOSED)); [injection E as <- <-; apply Id; reflexivity|].
+  set (c1 := (rq_set_in _ c) <| c_in_chunk_count ::= S |> <| c_in_data_counter ::= Z.add (Z.of_nat len) |>) in *.
+  set (gap := match data with None => (0 <? len)%nat | Some _ => false end) in *.
+  assert (Base : forall v, RI gap v (c1 <| c_out_status := v |>)).
+  { intros v. destruct T as [[B1 B2 B3 B4] [C1 C2 C3]]. split; [|intros _ _; reflexivity]. constructor.
+    - exact F.
+    - unfold rq_pre, rq_wf, rq_inv, rq_len, rq_rd, rq_cs. cbn. repeat split; try lia; [|exact Ri].
+      destruct data as [d|]; [apply Hd; reflexivity|exact I].
+    - intros G Hn. unfold rq_len. cbn in *. subst gap. destruct data; [discriminate Hn|]. apply Nat.ltb_ge in G. lia.
+    - split; constructor; assumption.
+    - intros N1 N2. cbn in *. destruct (c_in_tx c); [discriminate|]. destruct (c_in_state c); try discriminate Eg; contradiction.
+    - intros _ _. reflexivity.
+    - left. reflexivity. }
+  assert (Eqv : c1 = c1 <| c_out_status := c_out_status c |>) by (subst c1; destruct c; reflexivity).
+  destruct (c_in_status c1 =? c_HTP_STREAM_TUNNEL).
+  { injection E as <- <-. split; [exact F|intros _; split; [|left; reflexivity]]. rewrite Eqv. exact (safe_inv_of_RE _ _ _ (proj1 (Base _))). }
+  set (c2 := if c_out_status c1 =? c_HTP_STREAM_DATA_OTHER then _ else c1) in *.
+  assert (H2 : exists v, RI gap v c2 /\ (v = c_out_status c \/ (c_out_status c = c_HTP_STREAM_DATA_OTHER /\ v = c_HTP_STREAM_DATA))).
+  { subst c2. destruct (c_out_status c1 =? c_HTP_STREAM_DATA_OTHER) eqn:Eo.
+    - exists c_HTP_STREAM_DATA. split; [apply Base|right; split; [|reflexivity]]. apply Z.eqb_eq in Eo. exact Eo.
+    - exists (c_out_status c). split; [rewrite Eqv; apply Base|left; reflexivity]. }
+  destruct H2 as (v & HI & Hv).
+  destruct (rq_loop_safe gap v _ c2 c' code HI E O) as [F' Hre].
+  split; [exact F'|]. intros Sk. pose proof (Hre Sk) as R. split; [exact (safe_inv_of_RE _ _ _ R)|].
+  unfold out_status_after_req. destruct (re_os _ _ _ R) as [Q|Q]; rewrite Q; [|tauto]. destruct Hv as [->|[Hv ->]]; tauto.
+Qed.
+End Loop.
+
+(* the theorem depends on no axiom *)
+Print Assumptions connp_req_data_safe.
